@@ -1,8 +1,13 @@
-(* JsonFacts.v — the JSON round trip preserves meaning, explicit ids and signs (C16).
-   Spec side: jsem, an arithmetic meaning of DOCUMENTS that does not mention to_json/from_json.
-   to_json_sem  : the document of a model means what the model evaluates to;
-   from_json_sem: the model rebuilt from a document evaluates to what the document means;
-   composition  : C16_sem. *)
+(* JsonFacts.v — the JSON round trip preserves meaning, leaves, explicit ids, signs and defaults (C16).
+   Spec side: jsem (an arithmetic meaning of DOCUMENTS) and jleaves (the variables a document mentions); neither
+   mentions to_json / from_json.
+   to_json_sem   : the document of a model means what the model evaluates to        (cls_inv_g, xnor_flat, ok)
+   from_json_sem : the model rebuilt from a document evaluates to what it means     (all_unmerged)
+   roundtrip_sem / roundtrip_sem_cfg / roundtrip_stingy : composition, for both class maps and the configurator
+   to_json_leaves / from_json_leaves / roundtrip_leaves : the same for the set of (leaf id, bounds)
+   to_json_ids, roundtrip_id_g, roundtrip_sign, roundtrip_default : ids, signs, default lists
+   build_cls_inv / build_xnor_flat / build_ok : constructor outputs satisfy the shape hypotheses.
+   cls_inv_g cc : cc = false — plog classes only (notation cls_inv); cc = true — cc.Any / cc.Xor allowed. *)
 Require Import Puan.Base Puan.Plog Puan.Sem Puan.SemFacts Puan.NegateFacts Puan.SortFacts Puan.Cons Puan.ConsFacts Puan.ConfigFacts Puan.Json.
 Open Scope string_scope.
 Open Scope list_scope.
@@ -116,7 +121,20 @@ Definition xor_pair (ch : list prop) : Prop :=
   exists a b, (ch = [a; b] \/ ch = [b; a]) /\
     sign_of a = 1 /\ value_of a = 1 /\ sign_of b = -1 /\ value_of b = -1 /\ children a = children b.
 
-Definition cls_shape (m : meta) (s v : Z) (ch : list prop) : Prop :=
+(* what cc.Any.to_json serialises: the nested form Any(default, Any(rest)) is flattened *)
+Definition cc_flat (p : prop) : list prop :=
+  let ch := children p in
+  if Nat.eqb (List.length ch) 2 && existsb has_prio ch
+  then filter (fun x => negb (has_prio x)) ch ++ (match find has_prio ch with Some x => children x | None => [] end)
+  else ch.
+Definition ccany_nested (ch : list prop) : Prop :=
+  exists d q, (ch = [d; q] \/ ch = [q; d]) /\ has_prio d = false /\ has_prio q = true /\ sign_of q = 1 /\ value_of q = 1.
+Definition ccxor_pair (ch : list prop) : Prop :=
+  exists a b, (ch = [a; b] \/ ch = [b; a]) /\ m_cls (meta_of a) = KCcAny /\ is_var a = false /\
+    m_cls (meta_of b) = KAtMost /\ is_var b = false /\ value_of b = -1 /\ Permutation (cc_flat a) (children b).
+
+(* cc = false: models of puan.logic.plog only; cc = true: the configurator classes cc.Any / cc.Xor are allowed too *)
+Definition cls_shape (cc : bool) (m : meta) (s v : Z) (ch : list prop) : Prop :=
   match m_cls m with
   | KAtLeast => True
   | KAtMost => s = -1
@@ -126,18 +144,19 @@ Definition cls_shape (m : meta) (s v : Z) (ch : list prop) : Prop :=
   | KXNor => s = 1 /\ v = 1 /\ List.length ch = 2%nat
   | KImply => s = 1 /\ v = 1 /\ List.length ch = 2%nat /\ (m_cond m < 2)%nat /\
               (forall c, nth_error ch (m_cond m) = Some c -> is_var c = false)
-  | KCcAny => False
-  | KCcXor => False
+  | KCcAny => if cc then s = 1 /\ v = 1 /\ (if Nat.eqb (List.length ch) 2 && existsb has_prio ch then ccany_nested ch else True) else False
+  | KCcXor => if cc then s = 1 /\ v = 2 /\ (match m_default m with [] => xor_pair ch | _ => ccxor_pair ch end) else False
   end.
 
-Fixpoint cls_inv (p : prop) : Prop :=
+Fixpoint cls_inv_g (cc : bool) (p : prop) : Prop :=
   match p with
   | Var _ _ _ => True
   | Node m _ _ _ _ s v ch =>
-      cls_shape m s v ch /\ (fix go l := match l with [] => True | x :: xs => cls_inv x /\ go xs end) ch
+      cls_shape cc m s v ch /\ (fix go l := match l with [] => True | x :: xs => cls_inv_g cc x /\ go xs end) ch
   end.
+Notation cls_inv := (cls_inv_g false).
 
-(* finding D6 is excluded by: the operands of every XNor are pleaves, i.e. the two stored
+(* finding D6 is excluded by: the operands of every XNor are leaves, i.e. the two stored
    children are [0 <= -Σ X] and [2 <= Σ X] over one list X of variables *)
 Definition xnor_pair (ch : list prop) : Prop :=
   exists a b, (ch = [a; b] \/ ch = [b; a]) /\
@@ -151,10 +170,10 @@ Fixpoint xnor_flat (p : prop) : Prop :=
       (fix go l := match l with [] => True | x :: xs => xnor_flat x /\ go xs end) ch
   end.
 
-Lemma cls_inv_node m i g lo hi s v ch :
-  cls_inv (Node m i g lo hi s v ch) <-> cls_shape m s v ch /\ Forall cls_inv ch.
+Lemma cls_inv_node cc m i g lo hi s v ch :
+  cls_inv_g cc (Node m i g lo hi s v ch) <-> cls_shape cc m s v ch /\ Forall (cls_inv_g cc) ch.
 Proof.
-  cbn [cls_inv]. split; intros [H1 H2]; split; auto; clear H1.
+  cbn [cls_inv_g]. split; intros [H1 H2]; split; auto; clear H1.
   - induction ch as [|x xs IH]; constructor; destruct H2; auto.
   - induction H2; cbn; auto.
 Qed.
@@ -183,6 +202,48 @@ Proof. reflexivity. Qed.
 Lemma Forall_perm {A} (P : A -> Prop) l l' : Permutation l l' -> Forall P l -> Forall P l'.
 Proof. intros Hp H. rewrite Forall_forall in *. intros x Hx. apply H. eapply Permutation_in; [apply Permutation_sym; exact Hp|exact Hx]. Qed.
 
+Lemma Forall_filter {A} (P : A -> Prop) f l : Forall P l -> Forall P (filter f l).
+Proof. intros H. apply Forall_forall. intros x Hx. apply filter_In in Hx. rewrite Forall_forall in H. apply H. tauto. Qed.
+Lemma xnor_flat_children p : xnor_flat p -> Forall xnor_flat (children p).
+Proof. destruct p; [constructor|]. intros H. apply xnor_flat_node in H. cbn [children]. tauto. Qed.
+Lemma cls_inv_children cc p : cls_inv_g cc p -> Forall (cls_inv_g cc) (children p).
+Proof. destruct p; [constructor|]. intros H. apply cls_inv_node in H. cbn [children]. tauto. Qed.
+Lemma ok_children env p : ok env p -> Forall (ok env) (children p).
+Proof. destruct p; [constructor|]. intros H. apply ok_node_forall in H. cbn [children]. tauto. Qed.
+Lemma mapM_app {A B} (f : A -> option B) a b :
+  mapM f (a ++ b) = match mapM f a, mapM f b with Some x, Some y => Some (x ++ y) | _, _ => None end.
+Proof.
+  induction a as [|x xs IH]; cbn [mapM app]; [destruct (mapM f b); reflexivity|].
+  destruct (f x); [|reflexivity]. rewrite IH. destruct (mapM f xs); [|reflexivity]. destruct (mapM f b); reflexivity.
+Qed.
+Lemma zsum_nonneg l : Forall (fun x => 0 <= x) l -> 0 <= zsum l.
+Proof. induction 1; cbn [zsum]; lia. Qed.
+Lemma nn_eval env p : (forall i : ident, 0 <= env i) -> 0 <= eval env p.
+Proof. intros H. destruct p; cbn [eval]; [apply H|case_if; lia]. Qed.
+Lemma nn_sum env l : (forall i : ident, 0 <= env i) -> 0 <= zsum (map (eval env) l).
+Proof. intros H. apply zsum_nonneg. apply Forall_forall. intros x Hx. apply in_map_iff in Hx. destruct Hx as (p & <- & _). apply nn_eval, H. Qed.
+Lemma cc_flat_forall (P : prop -> Prop) : (forall x, P x -> Forall P (children x)) ->
+  forall p, Forall P (children p) -> Forall P (cc_flat p).
+Proof.
+  intros Hc p H. unfold cc_flat. case_if; [|exact H]. apply Forall_app. split; [apply Forall_filter, H|].
+  destruct (find has_prio (children p)) eqn:E; [|constructor]. apply find_some in E. apply Hc. rewrite Forall_forall in H. apply H. tauto.
+Qed.
+(* a cc.Any node means the disjunction of its flattened operands when these are non-negative *)
+Lemma eval_cc_flat env m i g lo hi ch : (forall i : ident, 0 <= env i) ->
+  (if Nat.eqb (List.length ch) 2 && existsb has_prio ch then ccany_nested ch else True) ->
+  eval env (Node m i g lo hi 1 1 ch) = b2z (1 <=? zsum (map (eval env) (cc_flat (Node m i g lo hi 1 1 ch)))).
+Proof.
+  intros Hn Hs. unfold cc_flat. cbn [children]. destruct (Nat.eqb (List.length ch) 2 && existsb has_prio ch) eqn:E.
+  - destruct Hs as (d & q & Hch & Hd & Hq & Hsq & Hvq). destruct q as [|mq iq gq loq hiq sq vq X]; [discriminate|].
+    cbn [sign_of value_of] in *. subst sq vq.
+    pose proof (nn_eval env d Hn) as H0. pose proof (nn_sum env X Hn) as H1.
+    destruct Hch as [-> | ->]; cbn [filter find]; rewrite Hd, Hq; cbn [negb filter find app children]; rewrite ?Hd, ?Hq; cbn [negb app children];
+      cbn [eval map zsum]; rewrite ?map_app; cbn [map zsum]; unfold b2z; repeat case_leaf_if; lia.
+  - cbn [eval]. unfold b2z. repeat case_if; lia.
+Qed.
+
+Lemma sign_pm s : (s =? 1) || (s =? -1) = true -> s = 1 \/ s = -1.
+Proof. lia. Qed.
 Lemma some_inj {A} (a b : A) : Some a = Some b -> a = b.
 Proof. intros H. inversion H. reflexivity. Qed.
 Lemma jobj_inj a b : JObj a = JObj b -> a = b.
@@ -197,14 +258,15 @@ Proof. unfold var_json. destruct ((lo =? 0) && (hi =? 1)); reflexivity. Qed.
 
 Section Neg.
 Variable genid : genid_t.
+Variable cc : bool.
 
 (* ---------- negate keeps the class shape (its results are plain AtLeast nodes) ---------- *)
-Lemma cls_inv_negate p : cls_inv p -> cls_inv (negate genid p).
+Lemma cls_inv_negate p : (cls_inv_g cc) p -> (cls_inv_g cc) (negate genid p).
 Proof.
   induction p as [i lo hi | m i g lo hi s v ch0 IH] using prop_ind'; intros Hc; [exact Hc|].
   apply cls_inv_node in Hc. destruct Hc as [_ Hch].
   cbn [negate]. rewrite pairs_fst. set (ch := py_sorted id_of ch0).
-  assert (Hchs : Forall cls_inv ch) by (apply (Forall_perm _ ch0); [apply Permutation_sym, py_sorted_perm|exact Hch]).
+  assert (Hchs : Forall (cls_inv_g cc) ch) by (apply (Forall_perm _ ch0); [apply Permutation_sym, py_sorted_perm|exact Hch]).
   case_if.
   - apply cls_inv_node. split; [exact I|]. apply Forall_app. split.
     + apply Forall_forall. intros r Hr. apply in_flat_map in Hr. destruct Hr as ([c nc] & Hpc & Hr).
@@ -255,7 +317,10 @@ End Neg.
 
 Section Facts.
 Variable genid : genid_t.
+Variable cc : bool.
 Variable env : ident -> Z.
+(* configurator classes: cc.Any's nested form means the flat disjunction only over non-negative operands *)
+Hypothesis Hnn : cc = true -> forall i, 0 <= env i.
 
 (* ---------- to_json_sem ---------- *)
 Lemma jsem_var_json n i lo hi : lo <= env i <= hi -> jsem env (S n) (var_json i lo hi) = Some (env i).
@@ -266,8 +331,8 @@ Proof.
 Qed.
 
 Lemma mapM_to_json_sem n ch js :
-  (forall p j, to_json genid n p = Some j -> cls_inv p -> xnor_flat p -> ok env p -> jsem env n j = Some (eval env p)) ->
-  mapM (to_json genid n) ch = Some js -> Forall cls_inv ch -> Forall xnor_flat ch -> Forall (ok env) ch ->
+  (forall p j, to_json genid n p = Some j -> (cls_inv_g cc) p -> xnor_flat p -> ok env p -> jsem env n j = Some (eval env p)) ->
+  mapM (to_json genid n) ch = Some js -> Forall (cls_inv_g cc) ch -> Forall xnor_flat ch -> Forall (ok env) ch ->
   mapM (jsem env n) js = Some (map (eval env) ch).
 Proof.
   intros IH. revert js. induction ch as [|x xs IHl]; intros js H Hc Hx Ho; cbn [mapM] in H.
@@ -278,13 +343,37 @@ Proof.
 Qed.
 
 
-Theorem to_json_sem n : forall p j, to_json genid n p = Some j -> cls_inv p -> xnor_flat p -> ok env p -> jsem env n j = Some (eval env p).
+Theorem to_json_sem n : forall p j, to_json genid n p = Some j -> (cls_inv_g cc) p -> xnor_flat p -> ok env p -> jsem env n j = Some (eval env p).
 Proof.
   induction n as [|n IH]; intros p j H Hc Hx Ho; [discriminate|].
   destruct p as [i lo hi | m i g lo hi s v ch].
   - cbn [to_json] in H. inversion H; subst. apply jsem_var_json. exact Ho.
   - apply cls_inv_node in Hc. destruct Hc as [Hsh Hcc]. apply xnor_flat_node in Hx. destruct Hx as [Hxs Hxc]. apply ok_node_forall in Ho. destruct Ho as [Hs Hoc].
-    cbn [to_json] in H. unfold cls_shape in Hsh. destruct (m_cls m) eqn:Ec.
+    cbn [to_json] in H. unfold cls_shape in Hsh.
+    assert (HXor : xor_pair ch -> s = 1 -> v = 2 ->
+              match ch with
+              | [] => Some (JObj ([("type", JStr "Xor"); ("propositions", JList [])] ++ [] ++ idf g i))
+              | c :: _ => match mapM (to_json genid n) (children c) with
+                          | Some js => Some (JObj ([("type", JStr "Xor"); ("propositions", JList js)] ++ [] ++ idf g i))
+                          | None => None
+                          end
+              end = Some j -> jsem env (S n) j = Some (eval env (Node m i g lo hi s v ch))).
+    { intros (a & b & Hch & Hsa & Hva & Hsb & Hvb & Hcab) -> -> H0.
+      destruct a as [|ma ia ga loa hia sa va X]; [discriminate|]. destruct b as [|mb ib gb lob hib sb vb X']; [discriminate|].
+      cbn [sign_of value_of children] in *. subst sa va sb vb X'.
+      assert (HinA : In (Node ma ia ga loa hia 1 1 X) ch) by (destruct Hch as [-> | ->]; cbn; auto).
+      rewrite Forall_forall in Hcc, Hxc, Hoc.
+      pose proof (Hcc _ HinA) as HcA. apply cls_inv_node in HcA. destruct HcA as [_ HcX].
+      pose proof (Hxc _ HinA) as HxA. apply xnor_flat_node in HxA. destruct HxA as [_ HxX].
+      pose proof (Hoc _ HinA) as HoA. apply ok_node_forall in HoA. destruct HoA as [_ HoX].
+      assert (Hdoc : exists js, mapM (to_json genid n) X = Some js /\ j = JObj ([("type", JStr "Xor"); ("propositions", JList js)] ++ [] ++ idf g i)).
+      { destruct Hch as [-> | ->]; cbn [children] in H0; destruct (mapM (to_json genid n) X) as [js|]; try discriminate; inversion H0; eauto. }
+      destruct Hdoc as (js & Em & ->).
+      pose proof (mapM_to_json_sem n X js IH Em HcX HxX HoX) as Hk.
+      assert (Hev : eval env (Node m i g lo hi 1 2 ch) = b2z (zsum (map (eval env) X) =? 1)).
+      { destruct Hch as [-> | ->]; cbn [eval map zsum]; unfold b2z; repeat case_leaf_if; lia. }
+      rewrite Hev. destruct g; cbn [jsem]; sj; rewrite Hk; reflexivity. }
+    destruct (m_cls m) eqn:Ec.
     + (* AtLeast *) destruct (mapM (to_json genid n) ch) as [js|] eqn:Em; [|discriminate]. inversion H; subst; clear H.
       pose proof (mapM_to_json_sem n ch js IH Em Hcc Hxc Hoc) as Hk.
       destruct g; destruct (negb (s =? default_sign v)) eqn:Es; cbn [jsem]; sj; rewrite Hk; cbn [eval]; unfold b2z; try reflexivity;
@@ -306,7 +395,7 @@ Proof.
       inversion H; subst j; clear H. specialize (Hnv c eq_refl).
       assert (Hin : In c ch /\ In q ch) by (split; eapply nth_error_In; eauto). destruct Hin as [Hinc Hinq].
       rewrite Forall_forall in Hcc, Hxc, Hoc.
-      pose proof (IH _ _ Ejc (cls_inv_negate genid c (Hcc c Hinc)) (xnor_flat_negate genid c (Hxc c Hinc)) (negate_ok genid env c (Hoc c Hinc))) as Hjc.
+      pose proof (IH _ _ Ejc (cls_inv_negate genid cc c (Hcc c Hinc)) (xnor_flat_negate genid c (Hxc c Hinc)) (negate_ok genid env c (Hoc c Hinc))) as Hjc.
       pose proof (IH _ _ Ejq (Hcc q Hinq) (Hxc q Hinq) (Hoc q Hinq)) as Hjq.
       pose proof (to_json_is_leaf genid _ _ _ Ejc) as Hlf. rewrite is_var_negate, Hnv in Hlf.
       rewrite negate_complement in Hjc by auto.
@@ -314,22 +403,7 @@ Proof.
       { destruct ch as [|a [|b [|? ?]]]; try discriminate. cbn [eval map zsum]. unfold b2z.
         destruct (m_cond m) as [|[|k]]; cbn [nth_error Nat.sub] in *; try lia; inversion Ec1; inversion Eq1; subst; repeat case_if; lia. }
       rewrite Hev. destruct g; cbn [jsem]; sj; rewrite Hjc, Hjq, Hlf; f_equal; unfold b2z; repeat case_if; lia.
-    + (* Xor *) destruct Hsh as (-> & -> & a & b & Hch & Hsa & Hva & Hsb & Hvb & Hcab).
-      destruct a as [|ma ia ga loa hia sa va X]; [discriminate|]. destruct b as [|mb ib gb lob hib sb vb X']; [discriminate|].
-      cbn [sign_of value_of children] in *. subst sa va sb vb X'.
-      assert (Hfc : match ch with [] => [] | c :: _ => children c end = X) by (destruct Hch as [-> | ->]; reflexivity).
-      assert (HinA : In (Node ma ia ga loa hia 1 1 X) ch) by (destruct Hch as [-> | ->]; cbn; auto).
-      rewrite Forall_forall in Hcc, Hxc, Hoc.
-      pose proof (Hcc _ HinA) as HcA. apply cls_inv_node in HcA. destruct HcA as [_ HcX].
-      pose proof (Hxc _ HinA) as HxA. apply xnor_flat_node in HxA. destruct HxA as [_ HxX].
-      pose proof (Hoc _ HinA) as HoA. apply ok_node_forall in HoA. destruct HoA as [_ HoX].
-      assert (Hdoc : exists js, mapM (to_json genid n) X = Some js /\ j = JObj ([("type", JStr "Xor"); ("propositions", JList js)] ++ [] ++ idf g i)).
-      { destruct Hch as [-> | ->]; cbn [children] in H; destruct (mapM (to_json genid n) X) as [js|]; try discriminate; inversion H; eauto. }
-      destruct Hdoc as (js & Em & ->).
-      pose proof (mapM_to_json_sem n X js IH Em HcX HxX HoX) as Hk.
-      assert (Hev : eval env (Node m i g lo hi 1 2 ch) = b2z (zsum (map (eval env) X) =? 1)).
-      { destruct Hch as [-> | ->]; cbn [eval map zsum]; unfold b2z; repeat case_leaf_if; lia. }
-      rewrite Hev. destruct g; cbn [jsem]; sj; rewrite Hk; reflexivity.
+    + (* Xor *) destruct Hsh as (E1 & E2 & Hpair). exact (HXor Hpair E1 E2 H).
     + (* XNor *) destruct Hsh as (-> & -> & _). destruct Hxs as (a & b & Hch & Hsa & Hva & Hsb & Hvb & Hcab & Hvars).
       destruct a as [|ma ia ga loa hia sa va X]; [discriminate|]. destruct b as [|mb ib gb lob hib sb vb X']; [discriminate|].
       cbn [sign_of value_of children] in *. subst sa va sb vb X'.
@@ -348,8 +422,40 @@ Proof.
       assert (Hev : eval env (Node m i g lo hi 1 1 ch) = b2z (negb (zsum (map (eval env) X) =? 1))).
       { destruct Hch as [-> | ->]; cbn [eval map zsum]; unfold b2z; repeat case_leaf_if; cbn [negb]; lia. }
       rewrite Hev. destruct g; cbn [jsem]; sj; rewrite Hk, sorted_sum; reflexivity.
-    + destruct Hsh.
-    + destruct Hsh.
+    + (* cc.Any *) assert (Hcc1 : cc = true) by (destruct cc; [reflexivity|destruct Hsh]). rewrite Hcc1 in Hsh.
+      destruct Hsh as (-> & -> & Hnest). pose proof (Hnn Hcc1) as Hn.
+      set (P := Node m i g lo hi 1 1 ch) in *.
+      pose proof (cc_flat_forall _ (cls_inv_children cc) P Hcc) as HcF.
+      pose proof (cc_flat_forall _ xnor_flat_children P Hxc) as HxF.
+      pose proof (cc_flat_forall _ (ok_children env) P Hoc) as HoF.
+      assert (Hdoc : exists js extra, mapM (to_json genid n) (cc_flat P) = Some js /\ j = JObj (("type", JStr "Any") :: ("propositions", JList js) :: extra)).
+      { unfold cc_flat, P. cbn [children]. destruct (Nat.eqb (List.length ch) 2 && existsb has_prio ch).
+        - rewrite mapM_app. crack. eexists. eexists. split; reflexivity.
+        - crack. eexists. eexists. split; reflexivity. }
+      destruct Hdoc as (js & extra & Em & ->).
+      pose proof (mapM_to_json_sem n _ js IH Em HcF HxF HoF) as Hk.
+      unfold P. rewrite (eval_cc_flat env m i g lo hi ch Hn Hnest). fold P. cbn [jsem]; sj; rewrite Hk; reflexivity.
+    + (* cc.Xor *) assert (Hcc1 : cc = true) by (destruct cc; [reflexivity|destruct Hsh]). rewrite Hcc1 in Hsh.
+      destruct Hsh as (-> & -> & Hpair). pose proof (Hnn Hcc1) as Hn.
+      destruct (m_default m) as [|d0 ds] eqn:Ed; [exact (HXor Hpair eq_refl eq_refl H)|].
+      destruct Hpair as (a & b & Hch & Hca & Hva & Hcb & Hvb & Hvalb & Hperm).
+      destruct a as [|ma ia ga loa hia sa va Xa]; [discriminate|]. destruct b as [|mb ib gb lob hib sb vb Xb]; [discriminate|].
+      cbn [meta_of value_of children] in *. subst vb.
+      assert (HinA : In (Node ma ia ga loa hia sa va Xa) ch /\ In (Node mb ib gb lob hib sb (-1) Xb) ch) by (destruct Hch as [-> | ->]; cbn; auto).
+      destruct HinA as [HinA HinB]. rewrite Forall_forall in Hcc, Hxc, Hoc.
+      pose proof (Hcc _ HinB) as HcB. apply cls_inv_node in HcB. destruct HcB as [HsB HcX]. unfold cls_shape in HsB. rewrite Hcb in HsB. subst sb.
+      pose proof (Hxc _ HinB) as HxB. apply xnor_flat_node in HxB. destruct HxB as [_ HxX].
+      pose proof (Hoc _ HinB) as HoB. apply ok_node_forall in HoB. destruct HoB as [_ HoX].
+      pose proof (Hcc _ HinA) as HcA. apply cls_inv_node in HcA. destruct HcA as [HsA _]. unfold cls_shape in HsA. rewrite Hca, Hcc1 in HsA. destruct HsA as (-> & -> & HnA).
+      assert (Hfind : find (fun x => cls_eqb (m_cls (meta_of x)) KAtMost) ch = Some (Node mb ib gb lob hib (-1) (-1) Xb)).
+      { destruct Hch as [-> | ->]; cbn [find meta_of]; rewrite ?Hca, ?Hcb; reflexivity. }
+      rewrite Hfind in H. cbn [children] in H. destruct (mapM (to_json genid n) Xb) as [js|] eqn:Em; [|discriminate]. apply some_inj in H. subst j.
+      pose proof (mapM_to_json_sem n Xb js IH Em HcX HxX HoX) as Hk.
+      assert (Hev : eval env (Node m i g lo hi 1 2 ch) = b2z (zsum (map (eval env) Xb) =? 1)).
+      { pose proof (eval_cc_flat env ma ia ga loa hia Xa Hn HnA) as Ea.
+        rewrite (zsum_perm _ _ (Permutation_map (eval env) Hperm)) in Ea.
+        destruct Hch as [-> | ->]; cbn [eval map zsum] in *; rewrite Ea; unfold b2z; repeat case_leaf_if; lia. }
+      rewrite Hev. destruct g; cbn [jsem]; sj; rewrite Hk; reflexivity.
     + (* Stingy *) destruct Hsh as [Hsg Hv]. destruct (mapM (to_json genid n) ch) as [js|] eqn:Em; [|discriminate]. inversion H; subst s; subst j; clear H.
       pose proof (mapM_to_json_sem n ch js IH Em Hcc Hxc Hoc) as Hk.
       assert (Hz : ch = [] \/ 0 < v) by (destruct ch; [auto|right; cbn [List.length] in Hv; lia]).
@@ -360,7 +466,8 @@ End Facts.
 
 (* ---------- from_json_sem ---------- *)
 (* guard of from_json_sem: no All(...) rebuilt by from_json has two arguments merged by the
-   set() in All.__init__ (true whenever the rebuilt arguments have pairwise distinct ids) *)
+   set() in All.__init__ (true whenever the rebuilt arguments have pairwise distinct ids).  It is exactly what
+   excludes the evaluation-changing face of finding D15 (Properties/C16.v, C16_merge_refuted). *)
 Fixpoint all_unmerged (genid : genid_t) (cfg : bool) (n : nat) (j : json) : bool :=
   match n with
   | O => true
@@ -405,15 +512,15 @@ Proof.
   split; [unfold b2z; repeat case_if; lia|apply ok_mk_node; auto].
 Qed.
 
-Lemma mapM_from_json_sem n m l ps ks :
-  (forall m j p' v, from_json genid false n j = Some p' -> jsem env m j = Some v -> all_unmerged genid false n j = true ->
+Lemma mapM_from_json_sem cfg n m l ps ks :
+  (forall m j p' v, from_json genid cfg n j = Some p' -> jsem env m j = Some v -> all_unmerged genid cfg n j = true ->
      eval env p' = v /\ ok env p' /\ is_var p' = jis_leaf j) ->
-  mapM (from_json genid false n) l = Some ps -> mapM (jsem env m) l = Some ks -> forallb (all_unmerged genid false n) l = true ->
+  mapM (from_json genid cfg n) l = Some ps -> mapM (jsem env m) l = Some ks -> forallb (all_unmerged genid cfg n) l = true ->
   ks = map (eval env) ps /\ Forall (ok env) ps.
 Proof.
   intros IH. revert ps ks. induction l as [|x xs IHl]; intros ps ks H1 H2 H3; cbn [mapM forallb] in *.
   - inversion H1; inversion H2. split; [reflexivity|constructor].
-  - destruct (from_json genid false n x) eqn:E1; [|discriminate]. destruct (mapM (from_json genid false n) xs) eqn:E2; [|discriminate].
+  - destruct (from_json genid cfg n x) eqn:E1; [|discriminate]. destruct (mapM (from_json genid cfg n) xs) eqn:E2; [|discriminate].
     destruct (jsem env m x) eqn:E3; [|discriminate]. destruct (mapM (jsem env m) xs) eqn:E4; [|discriminate].
     apply andb_true_iff in H3. destruct H3 as [H3 H4]. inversion H1; inversion H2; subst.
     destruct (IH _ _ _ _ E1 E3 H3) as (He & Ho & _). destruct (IHl _ _ eq_refl eq_refl H4) as [Hm Hk].
@@ -427,7 +534,7 @@ Proof.
 Qed.
 
 
-(* what each constructor's result evaluates to (integer pleaves allowed) *)
+(* what each constructor's result evaluates to (integer leaves allowed) *)
 Lemma sem_atleast o v sarg ps : (sarg = None \/ sarg = Some 1 \/ sarg = Some (-1)) -> Forall (ok env) ps ->
   eval env (c_atleast genid o v sarg ps) = b2z (v <=? (match sarg with Some s => s | None => if 0 <? v then 1 else -1 end) * zsum (map (eval env) ps))
   /\ ok env (c_atleast genid o v sarg ps) /\ is_var (c_atleast genid o v sarg ps) = false.
@@ -488,19 +595,86 @@ Proof.
 Qed.
 
 
-Theorem from_json_sem n : forall m j p' v,
-  from_json genid false n j = Some p' -> jsem env m j = Some v -> all_unmerged genid false n j = true ->
+Lemma ok_ccany o d args : Forall (ok env) args -> ok env (c_ccany genid o d args).
+Proof.
+  intros H. unfold c_ccany, c_any_m. destruct d as [|[d0 b] ds]; [apply ok_mk_node; auto|].
+  repeat case_if; apply ok_mk_node; auto.
+  apply Forall_app. split; [apply Forall_filter; auto|]. constructor; [|constructor].
+  apply ok_set_meta. apply ok_mk_node; auto. apply Forall_filter; auto.
+Qed.
+Lemma ok_replace d l : Forall (ok env) l -> Forall (ok env) (replace_first_value1 genid d l).
+Proof.
+  induction 1 as [|x xs Hx Hxs IH]; cbn [replace_first_value1]; [constructor|]. case_if; constructor; auto.
+  apply ok_ccany, ok_children, Hx.
+Qed.
+Lemma ok_ccxor o d args : Forall (ok env) args -> ok env (c_ccxor genid o d args).
+Proof.
+  intros Hl. unfold c_ccxor.
+  assert (Hb : ok env (c_xor_m genid (with_default KCcXor d) o args)).
+  { unfold c_xor_m, c_all_m. apply ok_mk_node; [auto|].
+    constructor; [apply ok_mk_node; auto|constructor; [apply ok_mk_node; auto|constructor]]. }
+  destruct d; [exact Hb|]. destruct (c_xor_m genid (with_default KCcXor (p :: d)) o args) as [|m i g lo hi s v ch] eqn:E; [exact Hb|].
+  apply ok_node_forall in Hb. apply ok_node_forall. destruct Hb as [Hb1 Hb2]. split; [exact Hb1|apply ok_replace, Hb2].
+Qed.
+Lemma zsum_filter_split (f : prop -> Z) (t : prop -> bool) l :
+  zsum (map f l) = zsum (map f (filter t l)) + zsum (map f (filter (fun x => negb (t x)) l)).
+Proof. induction l as [|x xs IH]; cbn [filter map zsum]; [lia|]. destruct (t x); cbn [negb map zsum]; lia. Qed.
+(* cc.Any: the nested form Any(default, Any(rest)) is the flat disjunction over non-negative operands *)
+Lemma sem_ccany o d ps : (forall i : ident, 0 <= env i) -> Forall (ok env) ps ->
+  eval env (c_ccany genid o d ps) = b2z (1 <=? zsum (map (eval env) ps))
+  /\ ok env (c_ccany genid o d ps) /\ is_var (c_ccany genid o d ps) = false.
+Proof.
+  intros Hn Ho. split; [|split; [apply ok_ccany; auto|apply is_var_ccany]].
+  unfold c_ccany. destruct d as [|[d0 b] ds]; [apply (sem_any_m _ o ps Ho)|].
+  repeat case_if; try apply (sem_any_m _ o ps Ho).
+  unfold c_any_m. rewrite eval_mk_node. change (default_sign 1) with 1. rewrite map_app, zsum_app. cbn [map zsum].
+  rewrite eval_set_meta. unfold c_any, c_any_m. rewrite eval_mk_node. change (default_sign 1) with 1.
+  rewrite (zsum_filter_split (eval env) (matches_default d0) ps).
+  pose proof (nn_sum env (filter (matches_default d0) ps) Hn). pose proof (nn_sum env (filter (fun x => negb (matches_default d0 x)) ps) Hn).
+  unfold b2z. repeat case_leaf_if; lia.
+Qed.
+Lemma eval_replace d l : (forall i : ident, 0 <= env i) -> Forall (ok env) l -> Forall (fun x => value_of x = 1 -> sign_of x = 1) l ->
+  map (eval env) (replace_first_value1 genid d l) = map (eval env) l.
+Proof.
+  intros Hn Ho Hs. induction Ho as [|x xs Hx Hxs IH]; cbn [replace_first_value1]; [reflexivity|]. inversion Hs; subst.
+  case_if; cbn [map]; [|f_equal; auto]. f_equal.
+  destruct x as [|m i g lo hi s v ch]; [rewrite andb_false_r in *; discriminate|]. cbn [value_of sign_of is_var negb children id_of lo_of hi_of] in *.
+  assert (v = 1) as -> by lia. rewrite (H1 eq_refl). apply ok_node_forall in Hx.
+  rewrite (proj1 (sem_ccany (Some (i, (lo, hi))) d ch Hn (proj2 Hx))). cbn [eval]. unfold b2z. repeat case_if; lia.
+Qed.
+Lemma is_var_ccxor o d ps : is_var (c_ccxor genid o d ps) = false.
+Proof.
+  unfold c_ccxor. destruct d; [unfold c_xor_m, c_all_m; apply is_var_mk_node|].
+  unfold c_xor_m, c_all_m, mk_node. destruct o as [[? [? ?]]|]; reflexivity.
+Qed.
+Lemma sem_ccxor o d ps : (forall i : ident, 0 <= env i) -> Forall (ok env) ps ->
+  eval env (c_ccxor genid o d ps) = b2z (zsum (map (eval env) ps) =? 1)
+  /\ ok env (c_ccxor genid o d ps) /\ is_var (c_ccxor genid o d ps) = false.
+Proof.
+  intros Hn Ho. split; [|split; [apply ok_ccxor; auto|apply is_var_ccxor]].
+  destruct (sem_xor_m (with_default KCcXor d) o ps Ho) as (E & O & _).
+  unfold c_ccxor. destruct d as [|d0 ds]; [exact E|].
+  destruct (c_xor_m genid (with_default KCcXor (d0 :: ds)) o ps) as [|m i g lo hi s v ch] eqn:Eb; [exact E|].
+  rewrite <- E. cbn [eval]. rewrite eval_replace; [reflexivity|exact Hn|apply ok_node_forall in O; tauto|].
+  assert (Hch : children (c_xor_m genid (with_default KCcXor (d0 :: ds)) o ps) = ch) by (rewrite Eb; reflexivity).
+  unfold c_xor_m, c_all_m, mk_node in Hch. assert (Hch' : ch = py_sorted id_of [c_atleast genid None 1 None ps; c_atmost genid None 1 ps]) by (destruct o as [[? [? ?]]|]; cbn [children] in Hch; congruence).
+  rewrite Hch'. apply (Forall_perm _ [c_atleast genid None 1 None ps; c_atmost genid None 1 ps]); [apply Permutation_sym, py_sorted_perm|].
+  constructor; [intros _; reflexivity|constructor; [intros Hv; discriminate|constructor]].
+Qed.
+
+Theorem from_json_sem cfg (Hcn : cfg = true -> forall i : ident, 0 <= env i) n : forall m j p' v,
+  from_json genid cfg n j = Some p' -> jsem env m j = Some v -> all_unmerged genid cfg n j = true ->
   eval env p' = v /\ ok env p' /\ is_var p' = jis_leaf j.
 Proof.
   induction n as [|n IH]; intros m j p' v H1 H2 H3; [discriminate|].
   destruct m as [|m]; [discriminate|]. destruct j as [| | |f]; try discriminate.
   cbn [from_json jsem all_unmerged jis_leaf] in *. unfold jget in *.
-  remember (match alookup "propositions" f with | Some (JList l) => mapM (from_json genid false n) l | None => Some [] | Some _ => None end) as props eqn:Eprops.
+  remember (match alookup "propositions" f with | Some (JList l) => mapM (from_json genid cfg n) l | None => Some [] | Some _ => None end) as props eqn:Eprops.
   remember (match alookup "propositions" f with | Some (JList l) => mapM (jsem env m) l | None => Some [] | Some _ => None end) as kids eqn:Ekids.
   rewrite !andb_true_iff in H3. destruct H3 as [[[H3 H3c] H3q] H3p].
   assert (HP : forall ps ks, props = Some ps -> kids = Some ks -> ks = map (eval env) ps /\ Forall (ok env) ps).
   { intros ps ks E1 E2. subst props kids. destruct (alookup "propositions" f) as [[| |l|]|]; try discriminate.
-    - apply andb_true_iff in H3. destruct H3 as [H3 _]. eapply mapM_from_json_sem; eauto.
+    - apply andb_true_iff in H3. destruct H3 as [H3 _]. eapply (mapM_from_json_sem cfg); eauto.
     - inversion E1; inversion E2. split; constructor. }
   assert (HA : forall t ps, alookup "type" f = Some (JStr t) -> String.eqb t "All" = true -> props = Some ps -> set_len ps = Z.of_nat (List.length ps)).
   { intros t ps Et Ea E1. subst props. rewrite Et, Ea in H3. destruct (alookup "propositions" f) as [[| |l|]|]; try discriminate.
@@ -512,7 +686,7 @@ Proof.
     destruct (String.eqb t "AtLeast") eqn:E1.
     { unfold jint_or in H2. crack; destruct (HP _ _ eq_refl eq_refl) as [-> Hok];
         match goal with |- eval env (c_atleast genid ?o ?v ?s ?ps) = _ /\ _ =>
-          assert (Hs : s = None \/ s = Some 1 \/ s = Some (-1)) by (lazymatch s with Some ?s0 => right; assert (s0 = 1 \/ s0 = -1) as [-> | ->] by lia; auto | None => auto end);
+          assert (Hs : s = None \/ s = Some 1 \/ s = Some (-1)) by (lazymatch s with Some ?s0 => right; match goal with Hb : (s0 =? 1) || (s0 =? -1) = true |- _ => destruct (sign_pm _ Hb) as [-> | ->]; auto end | None => auto end);
           destruct (sem_atleast o v s ps Hs Hok) as (E & O & V); rewrite E, V; auto end. }
     destruct (String.eqb t "AtMost") eqn:E2.
     { unfold jint_or in H2. crack; destruct (HP _ _ eq_refl eq_refl) as [-> Hok];
@@ -522,34 +696,45 @@ Proof.
     { crack; destruct (HP _ _ eq_refl eq_refl) as [-> Hok]. pose proof (HA _ _ eq_refl E3 eq_refl) as Hlen.
       destruct (sem_all_m (mk KAll) o _ Hlen Hok) as (E & O & V). unfold c_all. rewrite E, V, map_length. auto. }
     destruct (String.eqb t "Any") eqn:E4.
-    { crack; destruct (HP _ _ eq_refl eq_refl) as [-> Hok].
-      destruct (sem_any_m (mk KAny) o _ Hok) as (E & O & V). unfold c_any. rewrite E, V. auto. }
-    cbn [negb andb] in H1.
-    destruct (String.eqb t "Xor" || String.eqb t "ExactlyOne") eqn:E5.
-    { crack; destruct (HP _ _ eq_refl eq_refl) as [-> Hok].
-      destruct (sem_xor_m (mk KXor) o _ Hok) as (E & O & V). rewrite E, V. auto. }
+    { destruct cfg; crack; destruct (HP _ _ eq_refl eq_refl) as [-> Hok];
+        lazymatch goal with
+        | |- eval env (c_ccany genid ?o ?d ?ps) = _ /\ _ => destruct (sem_ccany o d ps (Hcn eq_refl) Hok) as (E & O & V); rewrite E, V; auto
+        | |- _ => destruct (sem_any_m (mk KAny) o _ Hok) as (E & O & V); unfold c_any; rewrite E, V; auto
+        end. }
+    destruct (String.eqb t "Xor") eqn:E5a; [cbn [orb] in H1, H2|destruct (String.eqb t "ExactlyOne") eqn:E5b; cbn [orb] in H1, H2].
+    { destruct cfg; crack; destruct (HP _ _ eq_refl eq_refl) as [-> Hok];
+        lazymatch goal with
+        | |- eval env (c_ccxor genid ?o ?d ?ps) = _ /\ _ => destruct (sem_ccxor o d ps (Hcn eq_refl) Hok) as (E & O & V); rewrite E, V; auto
+        | |- _ => destruct (sem_xor_m (mk KXor) o _ Hok) as (E & O & V); rewrite E, V; auto
+        end. }
+    { apply String.eqb_eq in E5b. subst t. destruct cfg; sj_in H1; [discriminate|].
+      crack; destruct (HP _ _ eq_refl eq_refl) as [-> Hok]. destruct (sem_xor_m (mk KXor) o _ Hok) as (E & O & V). rewrite E, V. auto. }
+    rewrite andb_false_r in H1. cbn [orb] in H1.
     destruct (String.eqb t "XNor") eqn:E6.
     { crack; destruct (HP _ _ eq_refl eq_refl) as [-> Hok].
       destruct (sem_xnor o _ Hok) as (E & O & V). rewrite E, V. auto. }
     destruct (String.eqb t "Not") eqn:E7.
-    { crack. match goal with A : from_json genid false n ?jp = Some ?p, B : jsem env m ?jp = Some ?c |- _ =>
+    { crack. match goal with A : from_json genid cfg n ?jp = Some ?p, B : jsem env m ?jp = Some ?c |- _ =>
         destruct (IH _ _ _ _ A B H3p) as (Ee & Eo & Ev) end.
       destruct (sem_not _ Eo) as (E & O & V). rewrite E, V, Ev, Ee. auto. }
     destruct (String.eqb t "Imply") eqn:E8; [|discriminate].
     { crack.
-      match goal with A : from_json genid false n ?jp = Some ?p, B : jsem env m ?jp = Some ?c, G : all_unmerged genid false n ?jp = true,
-                      A' : from_json genid false n ?jq = Some ?q, B' : jsem env m ?jq = Some ?d, G' : all_unmerged genid false n ?jq = true |- eval env (c_imply genid _ ?p ?q) = _ /\ _ =>
+      match goal with A : from_json genid cfg n ?jp = Some ?p, B : jsem env m ?jp = Some ?c, G : all_unmerged genid cfg n ?jp = true,
+                      A' : from_json genid cfg n ?jq = Some ?q, B' : jsem env m ?jq = Some ?d, G' : all_unmerged genid cfg n ?jq = true |- eval env (c_imply genid _ ?p ?q) = _ /\ _ =>
         destruct (IH _ _ _ _ A B G) as (Ee & Eo & Ev); destruct (IH _ _ _ _ A' B' G') as (Ee' & Eo' & _) end.
       destruct (sem_imply o _ _ Eo Eo') as (E & O & V). rewrite E, V, Ev, Ee, Ee'. auto. }
   - destruct (alookup "propositions" f) as [jp|] eqn:Ep; [|apply (var_of_json_sem f); auto].
     unfold jint_or in H2. crack; destruct (HP _ _ eq_refl eq_refl) as [-> Hok];
         match goal with |- eval env (c_atleast genid ?o ?v ?s ?ps) = _ /\ _ =>
-          assert (Hs : s = None \/ s = Some 1 \/ s = Some (-1)) by (lazymatch s with Some ?s0 => right; assert (s0 = 1 \/ s0 = -1) as [-> | ->] by lia; auto | None => auto end);
+          assert (Hs : s = None \/ s = Some 1 \/ s = Some (-1)) by (lazymatch s with Some ?s0 => right; match goal with Hb : (s0 =? 1) || (s0 =? -1) = true |- _ => destruct (sign_pm _ Hb) as [-> | ->]; auto end | None => auto end);
           destruct (sem_atleast o v s ps Hs Hok) as (E & O & V); rewrite E, V; auto end.
 Qed.
 End Facts2.
 
 (* ---------- composition, ids, signs ---------- *)
+Lemma ff_nn (env : ident -> Z) : false = true -> forall i : ident, 0 <= env i.
+Proof. discriminate. Qed.
+
 Section Facts3.
 Variable genid : genid_t.
 
@@ -559,8 +744,8 @@ Theorem roundtrip_sem env n n' p j p' :
   cls_inv p -> xnor_flat p -> ok env p -> all_unmerged genid false n' j = true ->
   eval env p' = eval env p /\ ok env p'.
 Proof.
-  intros H1 H2 Hc Hx Ho Hg. pose proof (to_json_sem genid env n p j H1 Hc Hx Ho) as Hs.
-  destruct (from_json_sem genid env n' n j p' _ H2 Hs Hg) as (E & O & _). auto.
+  intros H1 H2 Hc Hx Ho Hg. pose proof (to_json_sem genid false env (ff_nn env) n p j H1 Hc Hx Ho) as Hs.
+  destruct (from_json_sem genid env false (ff_nn env) n' n j p' _ H2 Hs Hg) as (E & O & _). auto.
 Qed.
 
 (* ids: emitted iff given explicitly, for every class *)
@@ -577,6 +762,8 @@ Proof. unfold mk_node. destruct o as [[i [lo hi]]|]; reflexivity. Qed.
 Lemma value_mk_node m v args o sarg : value_of (mk_node genid m v args o sarg) = v.
 Proof. unfold mk_node. destruct o as [[i [lo hi]]|]; reflexivity. Qed.
 Lemma children_mk_node m v args o sarg : children (mk_node genid m v args o sarg) = py_sorted id_of args.
+Proof. unfold mk_node. destruct o as [[i [lo hi]]|]; reflexivity. Qed.
+Lemma meta_mk_node m v args o sarg : meta_of (mk_node genid m v args o sarg) = m.
 Proof. unfold mk_node. destruct o as [[i [lo hi]]|]; reflexivity. Qed.
 
 (* fix D5: the sign of an AtLeast node survives (it is emitted when it is not the default) *)
@@ -602,10 +789,15 @@ End Facts3.
 (* ---------- the constructors produce the promised shapes ---------- *)
 Definition is_leaf (f : form) : bool := match f with FLeaf _ _ _ => true | _ => false end.
 
+(* at most one operand of cc.Any / cc.Xor is the default variable (true when sibling ids are distinct) *)
+Definition dflt_ok (d : dflt_t) (args : list prop) : Prop :=
+  match d with [] => True | (d0, _) :: _ => (List.length (filter (matches_default d0) args) <= 1)%nat end.
+
 Section Build.
 Variable genid : genid_t.
+Variable cc : bool.
 
-(* constructor trees of the plog classes, integer pleaves allowed; as in C04, All's set() does not
+(* constructor trees of the plog classes, integer leaves allowed; as in C04, All's set() does not
    merge two of its arguments (true whenever sibling ids are distinct) *)
 Fixpoint jwf (f : form) : Prop :=
   match f with
@@ -616,9 +808,14 @@ Fixpoint jwf (f : form) : Prop :=
       (fix go l := match l with [] => True | x :: xs => jwf x /\ go xs end) l
   | FImply _ a b => jwf a /\ jwf b
   | FNot a => jwf a
-  | FCcAny _ _ _ | FCcXor _ _ _ | FStingy _ _ => False
+  | FCcAny _ _ l => cc = true /\
+      (fix go l := match l with [] => True | x :: xs => jwf x /\ go xs end) l
+  | FCcXor _ d l => cc = true /\ dflt_ok d (map (build genid) l) /\
+      (fix go l := match l with [] => True | x :: xs => jwf x /\ go xs end) l
+  | FStingy _ l => set_len (map (build genid) l) = Z.of_nat (List.length l) /\
+      (fix go l := match l with [] => True | x :: xs => jwf x /\ go xs end) l
   end.
-(* every XNor is over pleaves (excludes finding D6) *)
+(* every XNor is over leaves (excludes finding D6) *)
 Fixpoint xnor_leaves (f : form) : Prop :=
   match f with
   | FLeaf _ _ _ => True
@@ -636,11 +833,11 @@ Proof. split; intros H; [induction l as [|x xs IH]; constructor; destruct H; aut
 Lemma sorted2 (a b : prop) : py_sorted id_of [a; b] = [a; b] \/ (py_sorted id_of [a; b] = [b; a] /\ String.ltb (id_of b) (id_of a) = true).
 Proof. cbn [py_sorted ins]. case_if; auto. Qed.
 
-Lemma cls_inv_mk_node m v args o sarg : Forall cls_inv args ->
-  cls_shape m (match sarg with Some s => s | None => default_sign v end) v (py_sorted id_of args) ->
-  cls_inv (mk_node genid m v args o sarg).
+Lemma cls_inv_mk_node m v args o sarg : Forall (cls_inv_g cc) args ->
+  cls_shape cc m (match sarg with Some s => s | None => default_sign v end) v (py_sorted id_of args) ->
+  (cls_inv_g cc) (mk_node genid m v args o sarg).
 Proof.
-  intros Ha Hs. assert (Hch : Forall cls_inv (py_sorted id_of args)) by (apply (Forall_perm _ args); [apply Permutation_sym, py_sorted_perm|exact Ha]).
+  intros Ha Hs. assert (Hch : Forall (cls_inv_g cc) (py_sorted id_of args)) by (apply (Forall_perm _ args); [apply Permutation_sym, py_sorted_perm|exact Ha]).
   unfold mk_node. destruct o as [[i [lo hi]]|]; apply cls_inv_node; auto.
 Qed.
 Lemma xnor_flat_mk_node m v args o sarg : Forall xnor_flat args ->
@@ -650,21 +847,21 @@ Proof.
   intros Ha Hs. assert (Hch : Forall xnor_flat (py_sorted id_of args)) by (apply (Forall_perm _ args); [apply Permutation_sym, py_sorted_perm|exact Ha]).
   unfold mk_node. destruct o as [[i [lo hi]]|]; apply xnor_flat_node; auto.
 Qed.
-Lemma cls_inv_set_meta m p : (forall m0 i g lo hi s v ch, p = Node m0 i g lo hi s v ch -> cls_shape m s v ch) -> Forall cls_inv (children p) -> cls_inv (set_meta m p).
+Lemma cls_inv_set_meta m p : (forall m0 i g lo hi s v ch, p = Node m0 i g lo hi s v ch -> cls_shape cc m s v ch) -> Forall (cls_inv_g cc) (children p) -> (cls_inv_g cc) (set_meta m p).
 Proof. destruct p as [|m0 i g lo hi s v ch]; [intros; exact I|]. intros Hs Hc. cbn [set_meta]. apply cls_inv_node. split; [eapply Hs; reflexivity|exact Hc]. Qed.
 
-Lemma cls_inv_atleast o v s args : Forall cls_inv args -> cls_inv (c_atleast genid o v s args).
+Lemma cls_inv_atleast o v s args : Forall (cls_inv_g cc) args -> (cls_inv_g cc) (c_atleast genid o v s args).
 Proof. intros H. apply cls_inv_mk_node; [exact H|exact I]. Qed.
-Lemma cls_inv_atmost o v args : Forall cls_inv args -> cls_inv (c_atmost genid o v args).
+Lemma cls_inv_atmost o v args : Forall (cls_inv_g cc) args -> (cls_inv_g cc) (c_atmost genid o v args).
 Proof. intros H. apply cls_inv_mk_node; [exact H|reflexivity]. Qed.
-Lemma cls_inv_all o args : set_len args = Z.of_nat (List.length args) -> Forall cls_inv args -> cls_inv (c_all genid o args).
+Lemma cls_inv_all o args : set_len args = Z.of_nat (List.length args) -> Forall (cls_inv_g cc) args -> (cls_inv_g cc) (c_all genid o args).
 Proof.
   intros Hl H. apply cls_inv_mk_node; [exact H|]. unfold cls_shape. cbn [mk m_cls]. split; [reflexivity|].
   rewrite Hl. rewrite (Permutation_length (py_sorted_perm id_of args)). reflexivity.
 Qed.
-Lemma cls_inv_any o args : Forall cls_inv args -> cls_inv (c_any genid o args).
+Lemma cls_inv_any o args : Forall (cls_inv_g cc) args -> (cls_inv_g cc) (c_any genid o args).
 Proof. intros H. apply cls_inv_mk_node; [exact H|]. split; reflexivity. Qed.
-Lemma cls_inv_as_comp p : cls_inv p -> cls_inv (as_comp genid p).
+Lemma cls_inv_as_comp p : (cls_inv_g cc) p -> (cls_inv_g cc) (as_comp genid p).
 Proof. intros H. unfold as_comp. destruct (is_var p); [|exact H]. apply cls_inv_all; [apply set_len1|auto]. Qed.
 
 Lemma xor_children_pair args :
@@ -672,7 +869,7 @@ Lemma xor_children_pair args :
   sign_of a = 1 /\ value_of a = 1 /\ sign_of b = -1 /\ value_of b = -1 /\ children a = children b.
 Proof. cbv zeta. unfold c_atleast, c_atmost. rewrite !sign_mk_node, !value_mk_node, !children_mk_node. repeat split; reflexivity. Qed.
 
-Lemma cls_inv_xor o args : Forall cls_inv args -> cls_inv (c_xor_m genid (mk KXor) o args).
+Lemma cls_inv_xor o args : Forall (cls_inv_g cc) args -> (cls_inv_g cc) (c_xor_m genid (mk KXor) o args).
 Proof.
   intros H. unfold c_xor_m, c_all_m.
   assert (Hlen : set_len [c_atleast genid None 1 None args; c_atmost genid None 1 args] = 2).
@@ -684,20 +881,20 @@ Proof.
     exists (c_atleast genid None 1 None args), (c_atmost genid None 1 args). split; [|auto 10].
     destruct (sorted2 (c_atleast genid None 1 None args) (c_atmost genid None 1 args)) as [-> | [-> _]]; auto.
 Qed.
-Lemma cls_inv_xnor o args : Forall cls_inv args -> cls_inv (c_xnor genid o args).
+Lemma cls_inv_xnor o args : Forall (cls_inv_g cc) args -> (cls_inv_g cc) (c_xnor genid o args).
 Proof.
   intros H. unfold c_xnor, c_any_m. apply cls_inv_mk_node.
   - constructor; [apply cls_inv_negate, cls_inv_atleast; auto|constructor; [apply cls_inv_negate, cls_inv_atmost; auto|constructor]].
   - unfold cls_shape. cbn [mk m_cls]. split; [reflexivity|]. split; [reflexivity|].
     rewrite (Permutation_length (py_sorted_perm id_of _)). reflexivity.
 Qed.
-Lemma cls_inv_not p : cls_inv p -> cls_inv (c_not genid p).
+Lemma cls_inv_not p : (cls_inv_g cc) p -> (cls_inv_g cc) (c_not genid p).
 Proof. intros H. apply cls_inv_negate, cls_inv_as_comp, H. Qed.
-Lemma cls_inv_imply o c q : cls_inv c -> cls_inv q -> cls_inv (c_imply genid o c q).
+Lemma cls_inv_imply o c q : (cls_inv_g cc) c -> (cls_inv_g cc) q -> (cls_inv_g cc) (c_imply genid o c q).
 Proof.
   intros Hc Hq. unfold c_imply. cbv zeta. set (nc := negate genid (as_comp genid c)).
   assert (Hnv : is_var nc = false) by (unfold nc; rewrite is_var_negate; apply is_var_as_comp).
-  assert (Hcn : cls_inv nc) by (apply cls_inv_not; auto).
+  assert (Hcn : (cls_inv_g cc) nc) by (apply cls_inv_not; auto).
   apply cls_inv_set_meta.
   - intros m0 i g lo hi s v ch E. unfold cls_shape. cbn [m_cls m_cond].
     assert (Hch : children (c_any_m genid (mk KImply) o [nc; q]) = ch) by (rewrite E; reflexivity).
@@ -714,10 +911,147 @@ Proof.
   - unfold c_any_m. rewrite children_mk_node. apply (Forall_perm _ [nc; q]); [apply Permutation_sym, py_sorted_perm|auto].
 Qed.
 
-Lemma jwf_map l : Forall jwf l -> Forall (fun f => jwf f -> cls_inv (build genid f)) l -> Forall cls_inv (map (build genid) l).
+Lemma meta_ccany o d args : meta_of (c_ccany genid o d args) = with_default KCcAny d.
+Proof. unfold c_ccany, c_any_m. destruct d as [|[d0 b] ds]; [apply meta_mk_node|]. repeat case_if; apply meta_mk_node. Qed.
+Lemma meta_set_meta m p : is_var p = false -> meta_of (set_meta m p) = m.
+Proof. destruct p; [discriminate|reflexivity]. Qed.
+Lemma meta_negate p : is_var p = false -> meta_of (negate genid p) = m0.
+Proof. destruct p; [discriminate|]. intros _. cbn [negate]. case_if; reflexivity. Qed.
+Lemma meta_ccxor o d args : meta_of (c_ccxor genid o d args) = with_default KCcXor d.
+Proof.
+  unfold c_ccxor. pose proof (meta_mk_node genid (with_default KCcXor d) (set_len [c_atleast genid None 1 None args; c_atmost genid None 1 args]) [c_atleast genid None 1 None args; c_atmost genid None 1 args] o None) as Hm.
+  fold (c_all_m genid (with_default KCcXor d) o [c_atleast genid None 1 None args; c_atmost genid None 1 args]) in Hm. fold (c_xor_m genid (with_default KCcXor d) o args) in Hm.
+  destruct d; [exact Hm|]. destruct (c_xor_m genid (with_default KCcXor (p :: d)) o args); exact Hm.
+Qed.
+Lemma has_prio_build f : has_prio (build genid f) = false.
+Proof.
+  unfold has_prio. destruct f; cbn [build]; try reflexivity;
+    try (unfold c_atleast, c_atmost, c_all, c_any, c_xor_m, c_xnor, c_stingy, c_all_m, c_any_m; rewrite meta_mk_node; reflexivity).
+  - unfold c_imply. cbv zeta. rewrite meta_set_meta; [reflexivity|]. unfold c_any_m. apply is_var_mk_node.
+  - unfold c_not. rewrite meta_negate; [reflexivity|apply is_var_as_comp].
+  - rewrite meta_ccany. reflexivity.
+  - rewrite meta_ccxor. reflexivity.
+Qed.
+
+Lemma existsb_false_forall {A} (f : A -> bool) l : Forall (fun x => f x = false) l -> existsb f l = false.
+Proof. induction 1; cbn; [reflexivity|]. rewrite H, IHForall. reflexivity. Qed.
+Lemma sign_set_meta m p : sign_of (set_meta m p) = sign_of p /\ value_of (set_meta m p) = value_of p /\ children (set_meta m p) = children p.
+Proof. destruct p; repeat split; reflexivity. Qed.
+Lemma filter_split_perm {A} (t : A -> bool) l : Permutation (filter t l ++ filter (fun x => negb (t x)) l) l.
+Proof.
+  induction l as [|x xs IH]; cbn [filter]; [constructor|]. destruct (t x); cbn [negb app]; [constructor; exact IH|].
+  eapply Permutation_trans; [apply Permutation_sym, Permutation_middle|constructor; exact IH].
+Qed.
+
+Definition noprio (l : list prop) : Prop := Forall (fun x => has_prio x = false) l.
+Lemma noprio_vars l : Forall (fun x => is_var x = true) l -> noprio l.
+Proof. apply Forall_impl. intros x H. destruct x; [reflexivity|discriminate]. Qed.
+
+Lemma inner_facts d0 args :
+  let inner := set_meta (mkMeta KAny (Some (-2)) [] 0) (c_any genid None (filter (fun x => negb (matches_default d0 x)) args)) in
+  has_prio inner = true /\ sign_of inner = 1 /\ value_of inner = 1 /\
+  children inner = py_sorted id_of (filter (fun x => negb (matches_default d0 x)) args).
+Proof. cbv zeta. unfold c_any, c_any_m, mk_node. cbn. auto. Qed.
+
+Lemma cls_inv_ccany o d args : cc = true -> Forall (cls_inv_g cc) args -> noprio args -> cls_inv_g cc (c_ccany genid o d args).
+Proof.
+  intros Hcc Ha Hp.
+  assert (Hplain : forall o, cls_inv_g cc (c_any_m genid (with_default KCcAny d) o args)).
+  { intros o'. unfold c_any_m. apply cls_inv_mk_node; [exact Ha|]. unfold cls_shape. cbn [with_default m_cls]. rewrite Hcc.
+    split; [reflexivity|]. split; [reflexivity|].
+    rewrite (existsb_false_forall has_prio); [rewrite andb_false_r; exact I|]. apply (Forall_perm _ args); [apply Permutation_sym, py_sorted_perm|exact Hp]. }
+  unfold c_ccany. destruct d as [|[d0 b] ds]; [apply Hplain|]. repeat case_if; try apply Hplain.
+  destruct (inner_facts d0 args) as (I1 & I2 & I3 & I4).
+  set (inner := set_meta (mkMeta KAny (Some (-2)) [] 0) (c_any genid None (filter (fun x => negb (matches_default d0 x)) args))) in *.
+  unfold c_any_m. apply cls_inv_mk_node.
+  - apply Forall_app. split; [apply Forall_filter, Ha|]. constructor; [|constructor]. unfold inner. apply cls_inv_set_meta.
+    + intros. unfold cls_shape. cbn [m_cls]. unfold c_any, c_any_m, mk_node in H. inversion H. split; reflexivity.
+    + unfold c_any, c_any_m. rewrite children_mk_node. apply (Forall_perm _ (filter (fun x => negb (matches_default d0 x)) args)); [apply Permutation_sym, py_sorted_perm|apply Forall_filter, Ha].
+  - unfold cls_shape. cbn [with_default m_cls]. rewrite Hcc. split; [reflexivity|]. split; [reflexivity|].
+    destruct (Nat.eqb (List.length (py_sorted id_of (filter (matches_default d0) args ++ [inner]))) 2 && existsb has_prio (py_sorted id_of (filter (matches_default d0) args ++ [inner]))) eqn:Ec; [|exact I].
+    apply andb_true_iff in Ec. destruct Ec as [El _]. apply Nat.eqb_eq in El.
+    rewrite (Permutation_length (py_sorted_perm id_of _)), app_length in El. cbn [List.length] in El.
+    destruct (filter (matches_default d0) args) as [|dd [|? ?]] eqn:Ef; cbn [List.length] in El; try lia.
+    assert (Hdd : has_prio dd = false).
+    { assert (In dd (filter (matches_default d0) args)) by (rewrite Ef; left; reflexivity). apply filter_In in H. unfold noprio in Hp. rewrite Forall_forall in Hp. apply Hp. tauto. }
+    cbn [app]. exists dd, inner. split; [destruct (sorted2 dd inner) as [-> | [-> _]]; auto|]. auto.
+Qed.
+
+(* the flattened operand list of cc.Any(args, default) is args again (at most one operand is the default) *)
+Lemma cc_flat_ccany o d args : noprio args -> dflt_ok d args ->
+  Permutation (cc_flat (c_ccany genid o d args)) args.
+Proof.
+  intros Hp Hd. unfold dflt_ok in Hd.
+  assert (Hplain : forall o, Permutation (cc_flat (c_any_m genid (with_default KCcAny d) o args)) args).
+  { intros o'. unfold cc_flat, c_any_m. rewrite children_mk_node.
+    rewrite (existsb_false_forall has_prio); [rewrite andb_false_r; apply py_sorted_perm|]. apply (Forall_perm _ args); [apply Permutation_sym, py_sorted_perm|exact Hp]. }
+  unfold c_ccany. destruct d as [|[d0 b] ds]; [apply Hplain|].
+  destruct (1 <? Z.of_nat (List.length args)); [|apply Hplain].
+  destruct (Nat.eqb (List.length (filter (fun x => negb (matches_default d0 x)) args)) (List.length args)
+            || Nat.eqb (List.length (filter (fun x => negb (matches_default d0 x)) args)) 0) eqn:E2; [apply Hplain|].
+  destruct (inner_facts d0 args) as (I1 & I2 & I3 & I4).
+  set (inner := set_meta (mkMeta KAny (Some (-2)) [] 0) (c_any genid None (filter (fun x => negb (matches_default d0 x)) args))) in *.
+  unfold cc_flat, c_any_m. rewrite children_mk_node.
+  pose proof (filter_split_perm (matches_default d0) args) as Hs.
+  destruct (filter (matches_default d0) args) as [|dd [|? ?]] eqn:Ef; cbn [List.length] in Hd; try lia.
+  - (* no operand is the default: excluded by the length test *) exfalso.
+    apply orb_false_iff in E2. destruct E2 as [H1 _]. apply Nat.eqb_neq in H1. apply H1.
+    apply Permutation_length in Hs. cbn [app] in Hs. exact Hs.
+  - assert (Hdd : has_prio dd = false).
+    { assert (In dd (filter (matches_default d0) args)) by (rewrite Ef; left; reflexivity). apply filter_In in H. unfold noprio in Hp. rewrite Forall_forall in Hp. apply Hp. tauto. }
+    cbn [app] in *.
+    destruct (sorted2 dd inner) as [-> | [-> _]]; cbn [List.length Nat.eqb existsb filter find]; rewrite ?Hdd, ?I1; cbn [orb andb negb filter find app]; rewrite ?Hdd, ?I1; cbn [negb app]; rewrite I4;
+      (eapply Permutation_trans; [|exact Hs]); constructor; apply py_sorted_perm.
+Qed.
+
+Lemma dflt_ok_perm d l l' : Permutation l l' -> dflt_ok d l -> dflt_ok d l'.
+Proof. unfold dflt_ok. destruct d as [|[d0 b] ds]; [auto|]. intros Hp. rewrite (Permutation_length (filter_perm (matches_default d0) _ _ Hp)). auto. Qed.
+
+Lemma cls_inv_ccxor o d args : cc = true -> Forall (cls_inv_g cc) args -> noprio args -> dflt_ok d args ->
+  cls_inv_g cc (c_ccxor genid o d args).
+Proof.
+  intros Hcc Ha Hp Hd.
+  destruct (xor_children_pair args) as (A1 & A2 & A3 & A4 & A5).
+  pose proof (cls_inv_atleast None 1 None args Ha) as HA. pose proof (cls_inv_atmost None 1 args Ha) as HB.
+  assert (HvA : is_var (c_atleast genid None 1 None args) = false) by apply is_var_mk_node.
+  assert (HvB : is_var (c_atmost genid None 1 args) = false) by apply is_var_mk_node.
+  assert (HchA : children (c_atleast genid None 1 None args) = py_sorted id_of args) by apply children_mk_node.
+  assert (HmB : meta_of (c_atmost genid None 1 args) = mk KAtMost) by apply meta_mk_node.
+  set (A := c_atleast genid None 1 None args) in *. set (B := c_atmost genid None 1 args) in *.
+  assert (Hlen : set_len [A; B] = 2).
+  { apply set_len2. unfold A, B, c_atleast, c_atmost, mk_node. apply same_elt_sign. cbn. lia. }
+  unfold c_ccxor, c_xor_m, c_all_m. fold A B. rewrite Hlen.
+  destruct d as [|d0 ds].
+  - apply cls_inv_mk_node; [auto|]. unfold cls_shape. cbn [with_default m_cls m_default]. rewrite Hcc.
+    split; [reflexivity|]. split; [reflexivity|]. exists A, B. split; [destruct (sorted2 A B) as [-> | [-> _]]; auto|auto 10].
+  - set (A' := c_ccany genid (Some (id_of A, (lo_of A, hi_of A))) (d0 :: ds) (children A)).
+    assert (Hps : noprio (py_sorted id_of args)) by (apply (Forall_perm _ args); [apply Permutation_sym, py_sorted_perm|exact Hp]).
+    assert (HA' : cls_inv_g cc A').
+    { unfold A'. rewrite HchA. apply cls_inv_ccany; auto. apply (Forall_perm _ args); [apply Permutation_sym, py_sorted_perm|exact Ha]. }
+    assert (Hflat : Permutation (cc_flat A') (children B)).
+    { unfold A'. rewrite <- A5, HchA. apply cc_flat_ccany; [exact Hps|exact (dflt_ok_perm _ args _ (Permutation_sym (py_sorted_perm id_of args)) Hd)]. }
+    assert (Hrep : replace_first_value1 genid (d0 :: ds) (py_sorted id_of [A; B]) = [A'; B] \/ replace_first_value1 genid (d0 :: ds) (py_sorted id_of [A; B]) = [B; A']).
+    { destruct (sorted2 A B) as [-> | [-> _]]; cbn [replace_first_value1]; rewrite ?A2, ?A4, ?HvA, ?HvB; cbn [Z.eqb andb negb]; auto. }
+    assert (Hpair : ccxor_pair (replace_first_value1 genid (d0 :: ds) (py_sorted id_of [A; B]))).
+    { exists A', B. split; [exact Hrep|]. unfold A'. rewrite meta_ccany, is_var_ccany, HmB. cbn [with_default m_cls mk]. auto 10. }
+    assert (Hkids : Forall (cls_inv_g cc) (replace_first_value1 genid (d0 :: ds) (py_sorted id_of [A; B]))).
+    { destruct Hrep as [-> | ->]; auto. }
+    unfold mk_node. change (default_sign 2) with 1.
+    destruct o as [[i [lo hi]]|]; apply cls_inv_node; (split; [|exact Hkids]); unfold cls_shape; cbn [with_default m_cls m_default]; rewrite Hcc; auto.
+Qed.
+Lemma cls_inv_stingy o args : set_len args = Z.of_nat (List.length args) -> Forall (cls_inv_g cc) args -> cls_inv_g cc (c_stingy genid o args).
+Proof.
+  intros Hl H. apply cls_inv_mk_node; [exact H|]. unfold cls_shape. cbn [mk m_cls]. split; [reflexivity|].
+  rewrite Hl. rewrite (Permutation_length (py_sorted_perm id_of args)). reflexivity.
+Qed.
+
+Lemma noprio_build l : noprio (map (build genid) l).
+Proof. apply Forall_forall. intros x Hx. apply in_map_iff in Hx. destruct Hx as (f & <- & _). apply has_prio_build. Qed.
+
+Lemma jwf_map l : Forall jwf l -> Forall (fun f => jwf f -> (cls_inv_g cc) (build genid f)) l -> Forall (cls_inv_g cc) (map (build genid) l).
 Proof. intros Hw IH. induction Hw as [|x xs Hx Hxs IHl]; cbn [map]; constructor; inversion IH; subst; auto. Qed.
 
-Theorem build_cls_inv f : jwf f -> cls_inv (build genid f).
+Theorem build_cls_inv f : jwf f -> (cls_inv_g cc) (build genid f).
 Proof.
   induction f as [i lo hi | o v s l IH | o v l IH | o l IH | o l IH | o l IH | o l IH | o a b IHa IHb | a IHa | o d l IH | o d l IH | o l IH] using form_ind';
     cbn [jwf build]; intros Hw; try (destruct Hw; fail).
@@ -730,6 +1064,9 @@ Proof.
   - apply jwf_list in Hw. apply cls_inv_xnor, jwf_map; auto.
   - destruct Hw. apply cls_inv_imply; auto.
   - apply cls_inv_not; auto.
+  - destruct Hw as [Hc Hw]. apply jwf_list in Hw. apply cls_inv_ccany; [exact Hc|apply jwf_map; auto|apply noprio_build].
+  - destruct Hw as (Hc & Hd & Hw). apply jwf_list in Hw. apply cls_inv_ccxor; [exact Hc|apply jwf_map; auto|apply noprio_build|exact Hd].
+  - destruct Hw as [Hl Hw]. apply jwf_list in Hw. apply cls_inv_stingy; [rewrite map_length; exact Hl|apply jwf_map; auto].
 Qed.
 
 Lemma negate_else m i g lo hi s v ch0 : s = -1 \/ forallb is_var ch0 = true ->
@@ -748,10 +1085,6 @@ Proof.
   destruct p as [|m1 i g lo hi s v ch]; [intros; exact I|]. intros Hm Hc. cbn [set_meta]. apply xnor_flat_node. split; [|exact Hc].
   destruct (m_cls m); try exact I. congruence.
 Qed.
-Lemma meta_mk_node m v args o sarg : meta_of (mk_node genid m v args o sarg) = m.
-Proof. unfold mk_node. destruct o as [[i [lo hi]]|]; reflexivity. Qed.
-Lemma xnor_flat_children p : xnor_flat p -> Forall xnor_flat (children p).
-Proof. destruct p; [constructor|]. intros H. apply xnor_flat_node in H. cbn [children]. tauto. Qed.
 Lemma xnor_flat_as_comp p : xnor_flat p -> xnor_flat (as_comp genid p).
 Proof. intros H. unfold as_comp. destruct (is_var p); [|exact H]. apply xnor_flat_mk_node; [auto|exact I]. Qed.
 Lemma xnor_flat_vars l : forallb is_var l = true -> Forall xnor_flat l.
@@ -778,8 +1111,6 @@ Proof. intros Hw IH. induction Hw as [|x xs Hx Hxs IHl]; cbn [map]; constructor;
 Lemma leaves_build_vars l : forallb is_leaf l = true -> forallb is_var (map (build genid) l) = true.
 Proof. induction l as [|x xs IH]; cbn [forallb map]; [auto|]. intros H. apply andb_true_iff in H. destruct H as [Hx H]. destruct x; try discriminate. cbn. auto. Qed.
 
-Lemma Forall_filter {A} (P : A -> Prop) f l : Forall P l -> Forall P (filter f l).
-Proof. intros H. apply Forall_forall. intros x Hx. apply filter_In in Hx. rewrite Forall_forall in H. apply H. tauto. Qed.
 Lemma xnor_flat_ccany o d args : Forall xnor_flat args -> xnor_flat (c_ccany genid o d args).
 Proof.
   intros H. unfold c_ccany, c_any_m. destruct d as [|[d0 b] ds]; [apply xnor_flat_mk_node; [auto|exact I]|].
@@ -836,22 +1167,8 @@ Lemma fok_list env l : (fix go l := match l with [] => True | x :: xs => fok env
 Proof. split; intros H; [induction l as [|x xs IH]; constructor; destruct H; auto | induction H; cbn; auto]. Qed.
 Lemma fok_map env l : Forall (fok env) l -> Forall (fun f => fok env f -> ok env (build genid f)) l -> Forall (ok env) (map (build genid) l).
 Proof. intros Hw IH. induction Hw as [|x xs Hx Hxs IHl]; cbn [map]; constructor; inversion IH; subst; auto. Qed.
-Lemma ok_children env p : ok env p -> Forall (ok env) (children p).
-Proof. destruct p; [constructor|]. intros H. apply ok_node_forall in H. cbn [children]. tauto. Qed.
 Lemma ok_as_comp env p : ok env p -> ok env (as_comp genid p).
 Proof. intros H. unfold as_comp. destruct (is_var p); [|exact H]. apply ok_mk_node; auto. Qed.
-Lemma ok_ccany env o d args : Forall (ok env) args -> ok env (c_ccany genid o d args).
-Proof.
-  intros H. unfold c_ccany, c_any_m. destruct d as [|[d0 b] ds]; [apply ok_mk_node; auto|].
-  repeat case_if; apply ok_mk_node; auto.
-  apply Forall_app. split; [apply Forall_filter; auto|]. constructor; [|constructor].
-  apply ok_set_meta. apply ok_mk_node; auto. apply Forall_filter; auto.
-Qed.
-Lemma ok_replace env d l : Forall (ok env) l -> Forall (ok env) (replace_first_value1 genid d l).
-Proof.
-  induction 1 as [|x xs Hx Hxs IH]; cbn [replace_first_value1]; [constructor|]. case_if; constructor; auto.
-  apply ok_ccany, ok_children, Hx.
-Qed.
 Theorem build_ok env f : fok env f -> ok env (build genid f).
 Proof.
   induction f as [i lo hi | o v s l IH | o v l IH | o l IH | o l IH | o l IH | o l IH | o a b IHa IHb | a IHa | o d l IH | o d l IH | o l IH] using form_ind';
@@ -879,7 +1196,7 @@ Proof.
 Qed.
 End Build.
 
-(* ---------- pleaves: ids and bounds ---------- *)
+(* ---------- leaves: ids and bounds ---------- *)
 Fixpoint pleaves (p : prop) : list (ident * (Z * Z)) :=
   match p with
   | Var i lo hi => [(i, (lo, hi))]
@@ -952,6 +1269,7 @@ Fixpoint jleaves (n : nat) (j : json) : option (list (ident * (Z * Z))) :=
 
 Section Leaves.
 Variable genid : genid_t.
+Variable cc : bool.
 
 Lemma leaves_sorted ch : same_set (flat_map pleaves (py_sorted id_of ch)) (flat_map pleaves ch).
 Proof. apply ss_flat_map_perm, py_sorted_perm. Qed.
@@ -990,8 +1308,8 @@ Proof.
 Qed.
 
 Lemma mapM_to_json_leaves n ch js :
-  (forall p j, to_json genid n p = Some j -> cls_inv p -> xnor_flat p -> exists L, jleaves n j = Some L /\ same_set L (pleaves p)) ->
-  mapM (to_json genid n) ch = Some js -> Forall cls_inv ch -> Forall xnor_flat ch ->
+  (forall p j, to_json genid n p = Some j -> (cls_inv_g cc) p -> xnor_flat p -> exists L, jleaves n j = Some L /\ same_set L (pleaves p)) ->
+  mapM (to_json genid n) ch = Some js -> Forall (cls_inv_g cc) ch -> Forall xnor_flat ch ->
   exists ls, mapM (jleaves n) js = Some ls /\ same_set (concat ls) (flat_map pleaves ch).
 Proof.
   intros IH. revert js. induction ch as [|x xs IHl]; intros js H Hc Hx; cbn [mapM] in H.
@@ -1002,7 +1320,17 @@ Proof.
     rewrite HL, Hls. exists (L :: ls). split; [reflexivity|]. cbn [concat flat_map]. apply ss_app; auto.
 Qed.
 
-Theorem to_json_leaves n : forall p j, to_json genid n p = Some j -> cls_inv p -> xnor_flat p ->
+Lemma leaves_cc_flat m i g lo hi ch :
+  (if Nat.eqb (List.length ch) 2 && existsb has_prio ch then ccany_nested ch else True) ->
+  same_set (flat_map pleaves (cc_flat (Node m i g lo hi 1 1 ch))) (flat_map pleaves ch).
+Proof.
+  intros Hs. unfold cc_flat. cbn [children]. destruct (Nat.eqb (List.length ch) 2 && existsb has_prio ch); [|apply ss_refl].
+  destruct Hs as (d & q & Hch & Hd & Hq & Hsq & Hvq). destruct q as [|mq iq gq loq hiq sq vq X]; [discriminate|].
+  destruct Hch as [-> | ->]; cbn [filter find]; rewrite Hd, Hq; cbn [negb filter find app children]; rewrite ?Hd, ?Hq; cbn [negb app children flat_map pleaves];
+    rewrite ?app_nil_r; [apply ss_refl|apply ss_app_comm].
+Qed.
+
+Theorem to_json_leaves n : forall p j, to_json genid n p = Some j -> (cls_inv_g cc) p -> xnor_flat p ->
   exists L, jleaves n j = Some L /\ same_set L (pleaves p).
 Proof.
   induction n as [|n IH]; intros p j H Hc Hx; [discriminate|].
@@ -1016,6 +1344,27 @@ Proof.
               exists L, jleaves (S n) (JObj ([("type", JStr tn); ("propositions", JList js)] ++ wv ++ idf g i ++ ws)) = Some L /\ same_set L (flat_map pleaves ch)).
     { intros tn wv ws js E1 E2 E3 Em. destruct (mapM_to_json_leaves n ch js IH Em Hcc Hxc) as (ls & Hls & HS).
       cbn [jleaves]. sj. rewrite E1, E2, E3, Hls. eauto. }
+    assert (HXor : xor_pair ch ->
+              match ch with
+              | [] => Some (JObj ([("type", JStr "Xor"); ("propositions", JList [])] ++ [] ++ idf g i))
+              | c :: _ => match mapM (to_json genid n) (children c) with
+                          | Some js => Some (JObj ([("type", JStr "Xor"); ("propositions", JList js)] ++ [] ++ idf g i))
+                          | None => None
+                          end
+              end = Some j -> exists L, jleaves (S n) j = Some L /\ same_set L (flat_map pleaves ch)).
+    { intros (a & b & Hch & Hsa & Hva & Hsb & Hvb & Hcab) H0.
+      destruct a as [|ma ia ga loa hia sa va X]; [discriminate|]. destruct b as [|mb ib gb lob hib sb vb X']; [discriminate|].
+      cbn [sign_of value_of children] in *. subst sa va sb vb X'.
+      assert (HinA : In (Node ma ia ga loa hia 1 1 X) ch) by (destruct Hch as [-> | ->]; cbn; auto).
+      pose proof Hcc as Hcc'. pose proof Hxc as Hxc'. rewrite Forall_forall in Hcc', Hxc'.
+      pose proof (Hcc' _ HinA) as HcA. apply cls_inv_node in HcA. destruct HcA as [_ HcX].
+      pose proof (Hxc' _ HinA) as HxA. apply xnor_flat_node in HxA. destruct HxA as [_ HxX].
+      assert (Hdoc : exists js, mapM (to_json genid n) X = Some js /\ j = JObj ([("type", JStr "Xor"); ("propositions", JList js)] ++ [] ++ idf g i)).
+      { destruct Hch as [-> | ->]; cbn [children] in H0; destruct (mapM (to_json genid n) X) as [js|]; try discriminate; apply some_inj in H0; eauto. }
+      destruct Hdoc as (js & Em & ->).
+      destruct (mapM_to_json_leaves n X js IH Em HcX HxX) as (ls & Hls & HS).
+      exists (concat ls). split; [destruct g; cbn [jleaves]; sj; rewrite Hls; reflexivity|].
+      eapply ss_trans; [exact HS|]. apply ss_sym. destruct Hch as [-> | ->]; cbn [flat_map pleaves]; rewrite app_nil_r; apply ss_dup. }
     destruct (m_cls m) eqn:Ec.
     + destruct (mapM (to_json genid n) ch) as [js|] eqn:Em; [|discriminate]. apply some_inj in H. subst j. apply Hbase; auto.
     + destruct (mapM (to_json genid n) ch) as [js|] eqn:Em; [|discriminate]. apply some_inj in H. subst j. apply Hbase; auto.
@@ -1027,7 +1376,7 @@ Proof.
       apply some_inj in H. subst j.
       assert (Hin : In c ch /\ In q ch) by (split; eapply nth_error_In; eauto). destruct Hin as [Hinc Hinq].
       rewrite Forall_forall in Hcc, Hxc.
-      destruct (IH _ _ Ejc (cls_inv_negate genid c (Hcc c Hinc)) (xnor_flat_negate genid c (Hxc c Hinc))) as (La & HLa & HSa).
+      destruct (IH _ _ Ejc (cls_inv_negate genid cc c (Hcc c Hinc)) (xnor_flat_negate genid c (Hxc c Hinc))) as (La & HLa & HSa).
       destruct (IH _ _ Ejq (Hcc q Hinq) (Hxc q Hinq)) as (Lb & HLb & HSb).
       pose proof (ss_trans _ _ _ HSa (negate_leaves c)) as HSa'.
       assert (Hev : same_set (pleaves c ++ pleaves q) (flat_map pleaves ch)).
@@ -1035,19 +1384,7 @@ Proof.
         destruct (m_cond m) as [|[|k]]; cbn [nth_error Nat.sub] in *; try lia; inversion Ec1; inversion Eq1; subst; [apply ss_refl|apply ss_app_comm]. }
       exists (La ++ Lb). split; [destruct g; cbn [jleaves]; sj; rewrite HLa, HLb; reflexivity|].
       eapply ss_trans; [apply ss_app; eassumption|exact Hev].
-    + (* Xor *) destruct Hsh as (-> & -> & a & b & Hch & Hsa & Hva & Hsb & Hvb & Hcab).
-      destruct a as [|ma ia ga loa hia sa va X]; [discriminate|]. destruct b as [|mb ib gb lob hib sb vb X']; [discriminate|].
-      cbn [sign_of value_of children] in *. subst sa va sb vb X'.
-      assert (HinA : In (Node ma ia ga loa hia 1 1 X) ch) by (destruct Hch as [-> | ->]; cbn; auto).
-      rewrite Forall_forall in Hcc, Hxc.
-      pose proof (Hcc _ HinA) as HcA. apply cls_inv_node in HcA. destruct HcA as [_ HcX].
-      pose proof (Hxc _ HinA) as HxA. apply xnor_flat_node in HxA. destruct HxA as [_ HxX].
-      assert (Hdoc : exists js, mapM (to_json genid n) X = Some js /\ j = JObj ([("type", JStr "Xor"); ("propositions", JList js)] ++ [] ++ idf g i)).
-      { destruct Hch as [-> | ->]; cbn [children] in H; destruct (mapM (to_json genid n) X) as [js|]; try discriminate; apply some_inj in H; eauto. }
-      destruct Hdoc as (js & Em & ->).
-      destruct (mapM_to_json_leaves n X js IH Em HcX HxX) as (ls & Hls & HS).
-      exists (concat ls). split; [destruct g; cbn [jleaves]; sj; rewrite Hls; reflexivity|].
-      eapply ss_trans; [exact HS|]. apply ss_sym. destruct Hch as [-> | ->]; cbn [flat_map pleaves]; rewrite app_nil_r; apply ss_dup.
+    + (* Xor *) destruct Hsh as (_ & _ & Hpair). exact (HXor Hpair H).
     + (* XNor *) destruct Hsh as (-> & -> & _). destruct Hxs as (a & b & Hch & Hsa & Hva & Hsb & Hvb & Hcab & Hvars).
       destruct a as [|ma ia ga loa hia sa va X]; [discriminate|]. destruct b as [|mb ib gb lob hib sb vb X']; [discriminate|].
       cbn [sign_of value_of children] in *. subst sa va sb vb X'.
@@ -1065,8 +1402,40 @@ Proof.
       exists (concat ls). split; [destruct g; cbn [jleaves]; sj; rewrite Hls; reflexivity|].
       eapply ss_trans; [exact HS|]. eapply ss_trans; [apply leaves_sorted|].
       apply ss_sym. destruct Hch as [-> | ->]; cbn [flat_map pleaves]; rewrite app_nil_r; apply ss_dup.
-    + destruct Hsh.
-    + destruct Hsh.
+    + (* cc.Any *) assert (Hcc1 : cc = true) by (destruct cc; [reflexivity|destruct Hsh]). rewrite Hcc1 in Hsh.
+      destruct Hsh as (-> & -> & Hnest).
+      set (P := Node m i g lo hi 1 1 ch) in *.
+      pose proof (cc_flat_forall _ (cls_inv_children cc) P Hcc) as HcF.
+      pose proof (cc_flat_forall _ xnor_flat_children P Hxc) as HxF.
+      assert (Hdoc : exists js extra, mapM (to_json genid n) (cc_flat P) = Some js /\ j = JObj (("type", JStr "Any") :: ("propositions", JList js) :: extra)).
+      { unfold cc_flat, P. cbn [children]. destruct (Nat.eqb (List.length ch) 2 && existsb has_prio ch).
+        - rewrite mapM_app. crack. eexists. eexists. split; reflexivity.
+        - crack. eexists. eexists. split; reflexivity. }
+      destruct Hdoc as (js & extra & Em & ->).
+      destruct (mapM_to_json_leaves n _ js IH Em HcF HxF) as (ls & Hls & HS).
+      exists (concat ls). split; [cbn [jleaves]; sj; rewrite Hls; reflexivity|].
+      eapply ss_trans; [exact HS|]. apply (leaves_cc_flat m i g lo hi ch Hnest).
+    + (* cc.Xor *) assert (Hcc1 : cc = true) by (destruct cc; [reflexivity|destruct Hsh]). rewrite Hcc1 in Hsh.
+      destruct Hsh as (-> & -> & Hpair).
+      destruct (m_default m) as [|d0 ds] eqn:Ed; [exact (HXor Hpair H)|].
+      destruct Hpair as (a & b & Hch & Hca & Hva & Hcb & Hvb & Hvalb & Hperm).
+      destruct a as [|ma ia ga loa hia sa va Xa]; [discriminate|]. destruct b as [|mb ib gb lob hib sb vb Xb]; [discriminate|].
+      cbn [meta_of value_of children] in *. subst vb.
+      assert (HinA : In (Node ma ia ga loa hia sa va Xa) ch /\ In (Node mb ib gb lob hib sb (-1) Xb) ch) by (destruct Hch as [-> | ->]; cbn; auto).
+      destruct HinA as [HinA HinB]. rewrite Forall_forall in Hcc, Hxc.
+      pose proof (Hcc _ HinB) as HcB. apply cls_inv_node in HcB. destruct HcB as [_ HcX].
+      pose proof (Hxc _ HinB) as HxB. apply xnor_flat_node in HxB. destruct HxB as [_ HxX].
+      pose proof (Hcc _ HinA) as HcA. apply cls_inv_node in HcA. destruct HcA as [HsA _]. unfold cls_shape in HsA. rewrite Hca, Hcc1 in HsA. destruct HsA as (-> & -> & HnA).
+      assert (Hfind : find (fun x => cls_eqb (m_cls (meta_of x)) KAtMost) ch = Some (Node mb ib gb lob hib sb (-1) Xb)).
+      { destruct Hch as [-> | ->]; cbn [find meta_of]; rewrite ?Hca, ?Hcb; reflexivity. }
+      rewrite Hfind in H. cbn [children] in H. destruct (mapM (to_json genid n) Xb) as [js|] eqn:Em; [|discriminate]. apply some_inj in H. subst j.
+      destruct (mapM_to_json_leaves n Xb js IH Em HcX HxX) as (ls & Hls & HS).
+      exists (concat ls). split; [destruct g; cbn [jleaves]; sj; rewrite Hls; reflexivity|].
+      eapply ss_trans; [exact HS|]. apply ss_sym.
+      assert (Ha : same_set (flat_map pleaves Xa) (flat_map pleaves Xb)).
+      { eapply ss_trans; [apply ss_sym, (leaves_cc_flat ma ia ga loa hia Xa HnA)|]. apply ss_flat_map_perm. exact Hperm. }
+      destruct Hch as [-> | ->]; cbn [flat_map pleaves]; rewrite app_nil_r;
+        (eapply ss_trans; [apply ss_app; [first [exact Ha|apply ss_refl]|first [exact Ha|apply ss_refl]]|apply ss_dup]).
     + destruct (mapM (to_json genid n) ch) as [js|] eqn:Em; [|discriminate]. apply some_inj in H. subst j. apply Hbase; auto.
 Qed.
 
@@ -1173,12 +1542,12 @@ Proof.
 Qed.
 
 (* round trip: same leaf variables with the same bounds *)
-Theorem roundtrip_leaves n n' p j p' :
-  to_json genid n p = Some j -> from_json genid false n' j = Some p' -> cls_inv p -> xnor_flat p ->
+Theorem roundtrip_leaves cfg n n' p j p' :
+  to_json genid n p = Some j -> from_json genid cfg n' j = Some p' -> (cls_inv_g cc) p -> xnor_flat p ->
   forall x, In x (pleaves p') <-> In x (pleaves p).
 Proof.
   intros H1 H2 Hc Hx. destruct (to_json_leaves n p j H1 Hc Hx) as (L & HL & HS).
-  exact (ss_trans _ _ _ (from_json_leaves false n' n j p' L H2 HL) HS).
+  exact (ss_trans _ _ _ (from_json_leaves cfg n' n j p' L H2 HL) HS).
 Qed.
 End Leaves.
 
@@ -1205,3 +1574,174 @@ Proof.
       (split; [reflexivity|intros; try reflexivity; try discriminate]).
 Qed.
 End Ids.
+
+(* ---------- configurators ---------- *)
+(* guard for StingyConfigurator.from_json: as all_unmerged, for the rules and for the top-level All *)
+Definition stingy_unmerged (genid : genid_t) (n : nat) (j : json) : bool :=
+  match j with
+  | JObj f =>
+      match alookup "propositions" f with
+      | Some (JList l) =>
+          forallb (all_unmerged genid true n) l &&
+          match mapM (from_json genid true n) l with
+          | Some ps => set_len ps =? Z.of_nat (List.length ps)
+          | None => true
+          end
+      | _ => true
+      end
+  | _ => true
+  end.
+
+Section Cfg.
+Variable genid : genid_t.
+Variable env : ident -> Z.
+Hypothesis Hn : forall i : ident, 0 <= env i.
+
+(* a rule of a configurator: class map of StingyConfigurator.from_json *)
+Theorem roundtrip_sem_cfg n n' p j p' :
+  to_json genid n p = Some j -> from_json genid true n' j = Some p' ->
+  cls_inv_g true p -> xnor_flat p -> ok env p -> all_unmerged genid true n' j = true ->
+  eval env p' = eval env p /\ ok env p'.
+Proof.
+  intros H1 H2 Hc Hx Ho Hg. pose proof (to_json_sem genid true env (fun _ => Hn) n p j H1 Hc Hx Ho) as Hs.
+  destruct (from_json_sem genid env true (fun _ => Hn) n' n j p' _ H2 Hs Hg) as (E & O & _). auto.
+Qed.
+
+Theorem stingy_from_json_sem n m f p' v :
+  stingy_from_json genid n (JObj f) = Some p' -> jsem env (S m) (JObj f) = Some v ->
+  alookup "type" f = Some (JStr "StingyConfigurator") -> stingy_unmerged genid n (JObj f) = true ->
+  eval env p' = v /\ ok env p'.
+Proof.
+  intros H1 H2 Ht H3. unfold stingy_from_json, jget in H1. cbn [jsem] in H2. rewrite Ht in H2. sj_in H2. cbn [stingy_unmerged] in H3.
+  assert (HP : exists ps o, p' = c_stingy genid o ps /\ v = b2z (Z.of_nat (List.length ps) <=? zsum (map (eval env) ps)) /\ Forall (ok env) ps /\ set_len ps = Z.of_nat (List.length ps)).
+  { destruct (alookup "propositions" f) as [[| |l|]|]; try discriminate.
+    - apply andb_true_iff in H3. destruct H3 as [H3 H4]. crack.
+      match goal with A : mapM (from_json genid true n) l = Some _, B : mapM (jsem env m) l = Some _ |- _ =>
+        destruct (mapM_from_json_sem genid env true n m l _ _ (fun m j p' v => from_json_sem genid env true (fun _ => Hn) n m j p' v) A B H3) as [-> Hok] end.
+      eexists. eexists. split; [reflexivity|]. rewrite map_length. split; [reflexivity|]. split; [exact Hok|lia].
+    - crack. exists [], o. repeat split; constructor. }
+  destruct HP as (ps & o & -> & -> & Hok & Hlen). destruct (sem_all_m genid env (mk KStingy) o ps Hlen Hok) as (E & O & _). unfold c_stingy. auto.
+Qed.
+
+Theorem roundtrip_stingy n n' m i g lo hi s v ch j p' : m_cls m = KStingy ->
+  to_json genid n (Node m i g lo hi s v ch) = Some j -> stingy_from_json genid n' j = Some p' ->
+  cls_inv_g true (Node m i g lo hi s v ch) -> xnor_flat (Node m i g lo hi s v ch) -> ok env (Node m i g lo hi s v ch) ->
+  stingy_unmerged genid n' j = true ->
+  eval env p' = eval env (Node m i g lo hi s v ch) /\ ok env p'.
+Proof.
+  intros Ec H1 H2 Hc Hx Ho Hg. pose proof (to_json_sem genid true env (fun _ => Hn) n _ j H1 Hc Hx Ho) as Hs.
+  destruct n as [|n]; [discriminate|]. cbn [to_json] in H1. rewrite Ec in H1. crack.
+  eapply stingy_from_json_sem; eauto.
+Qed.
+End Cfg.
+
+Section CfgLeaves.
+Variable genid : genid_t.
+Theorem stingy_from_json_leaves n m f p' L :
+  stingy_from_json genid n (JObj f) = Some p' -> jleaves (S m) (JObj f) = Some L ->
+  alookup "type" f = Some (JStr "StingyConfigurator") -> same_set (pleaves p') L.
+Proof.
+  intros H1 H2 Ht. unfold stingy_from_json, jget in H1. cbn [jleaves] in H2. rewrite Ht in H2. sj_in H2.
+  destruct (alookup "propositions" f) as [[| |l|]|]; try discriminate.
+  - crack. unfold c_stingy, c_all_m. eapply ss_trans; [apply leaves_mk_node|].
+    match goal with A : mapM (from_json genid true n) l = Some _, B : mapM (jleaves m) l = Some _ |- _ =>
+      exact (mapM_from_json_leaves genid true n m l _ _ (from_json_leaves genid true n) A B) end.
+  - crack. unfold c_stingy, c_all_m. eapply ss_trans; [apply leaves_mk_node|]. apply ss_refl.
+Qed.
+Theorem roundtrip_stingy_leaves n n' m i g lo hi s v ch j p' : m_cls m = KStingy ->
+  to_json genid n (Node m i g lo hi s v ch) = Some j -> stingy_from_json genid n' j = Some p' ->
+  cls_inv_g true (Node m i g lo hi s v ch) -> xnor_flat (Node m i g lo hi s v ch) ->
+  forall x, In x (pleaves p') <-> In x (pleaves (Node m i g lo hi s v ch)).
+Proof.
+  intros Ec H1 H2 Hc Hx. destruct (to_json_leaves genid true n _ j H1 Hc Hx) as (L & HL & HS).
+  destruct n as [|n]; [discriminate|]. cbn [to_json] in H1. rewrite Ec in H1. crack.
+  eapply ss_trans; [|exact HS]. eapply stingy_from_json_leaves; eauto.
+Qed.
+End CfgLeaves.
+
+(* ---------- defaults are kept ---------- *)
+Section Dflt.
+Variable genid : genid_t.
+Definition dflt_valid (d : dflt_t) : Prop := Forall (fun e => fst (snd e) <= snd (snd e)) d.
+
+Lemma dflt_roundtrip d : dflt_valid d -> dflt_of_json (Some (dflt_json d)) = Some d.
+Proof.
+  unfold dflt_of_json, dflt_json. induction 1 as [|[i [lo hi]] ds Hx Hxs IH]; cbn [map mapM]; [reflexivity|].
+  rewrite IH. cbn [fst snd] in *. unfold var_json, var_of_json, jget.
+  destruct ((lo =? 0) && (hi =? 1)) eqn:E; sj.
+  - assert (lo = 0 /\ hi = 1) as [-> ->] by lia. reflexivity.
+  - assert ((lo <=? hi) = true) as -> by lia. reflexivity.
+Qed.
+
+Theorem roundtrip_default n n' m i g lo hi s v ch j p' : m_cls m = KCcAny \/ m_cls m = KCcXor -> dflt_valid (m_default m) ->
+  to_json genid n (Node m i g lo hi s v ch) = Some j -> from_json genid true n' j = Some p' ->
+  m_default (meta_of p') = m_default m.
+Proof.
+  intros Ec Hd H1 H2. pose proof (dflt_roundtrip _ Hd) as Hr.
+  destruct n as [|n]; [discriminate|]. destruct n' as [|n']; [discriminate|]. cbn [to_json] in H1.
+  destruct Ec as [Ec | Ec]; rewrite Ec in H1.
+  - crack; destruct g; try (destruct (negb (s =? default_sign v)) eqn:Es); cbn [idf app andb] in H2; cbn [from_json] in H2; unfold jid, jget in H2; sj_in H2;
+      rewrite Hr in H2; destruct (m_default m) eqn:Em; crack; try rewrite meta_ccany; unfold c_any, c_any_m; try rewrite meta_mk_node; reflexivity.
+  - destruct (m_default m) eqn:Em; crack; destruct g; cbn [idf app andb] in H2; cbn [from_json] in H2; unfold jid, jget in H2; sj_in H2;
+      try rewrite Hr in H2; cbn [dflt_of_json] in H2; crack; rewrite meta_ccxor; reflexivity.
+Qed.
+End Dflt.
+
+(* the round trip of a whole configurator built by the constructors *)
+Section CfgBuild.
+Variable genid : genid_t.
+Variable env : ident -> Z.
+Hypothesis Hn : forall i : ident, 0 <= env i.
+Theorem roundtrip_stingy_build n n' o l j p' :
+  jwf genid true (FStingy o l) -> xnor_leaves (FStingy o l) -> fok env (FStingy o l) ->
+  to_json genid n (build genid (FStingy o l)) = Some j -> stingy_from_json genid n' j = Some p' ->
+  stingy_unmerged genid n' j = true ->
+  eval env p' = eval env (build genid (FStingy o l)) /\
+  (forall x, In x (pleaves p') <-> In x (pleaves (build genid (FStingy o l)))).
+Proof.
+  intros Hw Hx Ho H1 H2 Hg.
+  pose proof (build_cls_inv genid true _ Hw) as Sc. pose proof (build_xnor_flat genid _ Hx) as Sx. pose proof (build_ok genid env _ Ho) as So.
+  cbn [build] in *. unfold c_stingy, c_all_m, mk_node in *.
+  destruct o as [[i [lo hi]]|]; (split; [exact (proj1 (roundtrip_stingy genid env Hn n n' (mk KStingy) _ _ _ _ _ _ _ j p' eq_refl H1 H2 Sc Sx So Hg))
+                                        |exact (roundtrip_stingy_leaves genid n n' (mk KStingy) _ _ _ _ _ _ _ j p' eq_refl H1 H2 Sc Sx)]).
+Qed.
+End CfgBuild.
+
+(* ids through the round trip, both class maps, and for the configurator itself *)
+Section Ids2.
+Variable genid : genid_t.
+Lemma idgen_ccany o d ps : gen_of (c_ccany genid o d ps) = (match o with None => true | Some _ => false end) /\
+  (forall i b, o = Some (i, b) -> id_of (c_ccany genid o d ps) = i).
+Proof.
+  destruct o as [[i [lo hi]]|]; unfold c_ccany, c_any_m; destruct d as [|[d0 b0] ds]; repeat case_if; unfold mk_node; (split; [reflexivity|intros ? ? E; inversion E; reflexivity]).
+Qed.
+Lemma idgen_ccxor o d ps : gen_of (c_ccxor genid o d ps) = (match o with None => true | Some _ => false end) /\
+  (forall i b, o = Some (i, b) -> id_of (c_ccxor genid o d ps) = i).
+Proof.
+  destruct o as [[i [lo hi]]|]; unfold c_ccxor, c_xor_m, c_all_m, mk_node; destruct d; (split; [reflexivity|intros ? ? E; inversion E; reflexivity]).
+Qed.
+
+Theorem roundtrip_id_g cfg n n' p j p' :
+  to_json genid n p = Some j -> from_json genid cfg n' j = Some p' ->
+  gen_of p' = gen_of p /\ (gen_of p = false -> id_of p' = id_of p).
+Proof.
+  intros H1 H2. destruct n as [|n]; [discriminate|]. destruct n' as [|n']; [discriminate|].
+  destruct p as [i lo hi | m i g lo hi s v ch]; cbn [to_json gen_of id_of] in *.
+  - apply some_inj in H1. subst j. unfold var_json in H2. destruct ((lo =? 0) && (hi =? 1)); cbn [from_json] in H2; unfold jget, var_of_json, jget in H2; sj_in H2; crack; auto.
+  - destruct (m_cls m); crack; destruct g; destruct (negb (s =? default_sign v)) eqn:Es; cbn [idf app andb] in H2; cbn [from_json] in H2; unfold jid, jget in H2; sj_in H2;
+      destruct cfg; sj_in H2; crack; try discriminate;
+      try (match goal with |- context [c_ccany genid ?o ?d ?ps] => destruct (idgen_ccany o d ps) as [G I]; rewrite G; split; [reflexivity|intros; try discriminate; eapply I; reflexivity] end);
+      try (match goal with |- context [c_ccxor genid ?o ?d ?ps] => destruct (idgen_ccxor o d ps) as [G I]; rewrite G; split; [reflexivity|intros; try discriminate; eapply I; reflexivity] end);
+      cbv beta iota zeta delta [c_atleast c_atmost c_all c_any c_all_m c_any_m c_xor_m c_xnor c_imply c_stingy mk_node set_meta gen_of id_of];
+      (split; [reflexivity|intros; try reflexivity; try discriminate]).
+Qed.
+
+Theorem roundtrip_id_stingy n n' m i g lo hi s v ch j p' : m_cls m = KStingy ->
+  to_json genid n (Node m i g lo hi s v ch) = Some j -> stingy_from_json genid n' j = Some p' ->
+  gen_of p' = g /\ (g = false -> id_of p' = i).
+Proof.
+  intros Ec H1 H2. destruct n as [|n]; [discriminate|]. cbn [to_json] in H1. rewrite Ec in H1. crack.
+  destruct g; destruct (negb (s =? default_sign v)) eqn:Es; cbn [idf app andb] in H2; unfold stingy_from_json, jid, jget in H2; sj_in H2; crack;
+    cbv beta iota zeta delta [c_all_m c_stingy mk_node gen_of id_of]; (split; [reflexivity|intros; try reflexivity; try discriminate]).
+Qed.
+End Ids2.
